@@ -1011,20 +1011,25 @@ Qed.
 
 
 (* ------------------------------------------------------------------ whole histories *)
-Notation stepF := (step true true).
-Notation runF := (run true true).
+Notation stepF := (step true true true).
+Notation runF := (run true true true).
+Notation step1F := (step1 true true true).
+Notation sweepT := (sweep true finT).
 
 Record SInv (s : st) : Prop := {
   si_g : GInv [] s;
   si_pend : pend s = [];
   si_oof : oof s = false;
   si_reginfo : forall x r, In (x, r) (reg s) -> exists b, info s x = Some ((if r then KRoot else KManaged), b);
-  si_fin_alloc : forall x, info s x = None -> fin_count s x = 0;
-  si_ids : forall x, In x (ids s) <-> info s x <> None;
   si_own : forall b p, fin_count s b = 0 -> owned s b = Some p ->
                        exists k bb, info s p = Some (k, bb) /\ k <> KRaw;
   si_own_none : forall b, info s b = None -> owned s b = None
 }.
+
+Lemma si_fin_alloc s : SInv s -> forall x, info s x = None -> fin_count s x = 0.
+Proof. intros S. apply (g_alloc _ _ (si_g _ S)). Qed.
+Lemma si_ids s : SInv s -> forall x, In x (ids s) <-> info s x <> None.
+Proof. intros S. apply (g_ids _ _ (si_g _ S)). Qed.
 
 (* between events and before teardown, every managed or root object whose destructor has not
    run is registered — this is what allocation in a stop window breaks (F2) *)
@@ -1032,10 +1037,7 @@ Definition RegAll (s : st) : Prop :=
   torn s = false -> forall x k b, info s x = Some (k, b) -> k <> KRaw -> fin_count s x = 0 -> In x (regids s).
 
 Lemma count_zero e l : existsb (lev_eqb e) l = false -> count e l = 0.
-Proof.
-  unfold count. induction l as [|a l IH]; simpl; auto.
-  destruct (lev_eqb e a); simpl; [discriminate | exact IH].
-Qed.
+Proof. apply count_zero_pre. Qed.
 
 Lemma live_spec s o : live s o = true -> fin_count s o = 0 /\ info s o <> None.
 Proof.
@@ -1046,39 +1048,82 @@ Qed.
 Lemma F2_nil_r {A} (l : list (option A)) : Forall2 (fun a b => a = b \/ a = None) l [] -> l = [].
 Proof. inversion 1. reflexivity. Qed.
 
-Lemma SInv_ext s s' : SInv s -> GInv [] s' -> Ext s s' -> SInv s' /\ (RegAll s -> RegAll s').
+Lemma SInv_ext s s' :
+  SInv s -> GInv [] s' -> Ext s s' ->
+  SInv s' /\ (RegAll s -> (running s = true \/ forall x, info s x = None -> info s' x = None) -> RegAll s').
 Proof.
-  intros S G E. split.
+  intros S G E.
+  assert (Hpe : pend s' = []) by (apply F2_nil_r; rewrite <- (si_pend _ S); apply E).
+  split.
   - constructor.
     + exact G.
-    + apply F2_nil_r. rewrite <- (si_pend _ S). apply E.
+    + exact Hpe.
     + rewrite (e_oof _ _ E). apply S.
-    + intros x r Hx. rewrite (e_info _ _ E). apply (si_reginfo _ S). apply (e_reg _ _ E). exact Hx.
-    + intros x Hx. rewrite (e_info _ _ E) in Hx.
-      pose proof (si_fin_alloc _ S x Hx) as H0.
-      destruct (Nat.eq_dec (fin_count s' x) 0) as [Hz|Hnz]; [exact Hz|].
-      exfalso. apply (e_src _ _ E x H0); [lia | exact Hx].
-    + intros x. rewrite (e_ids _ _ E), (e_info _ _ E). apply S.
-    + intros b p Hfb Hown. rewrite (e_info _ _ E).
-      assert (H0 : fin_count s b = 0) by (pose proof (e_fin _ _ E b); lia).
-      apply (si_own _ S b p H0). rewrite <- (e_owned _ _ E b Hfb). exact Hown.
-    + intros b Hb. rewrite (e_info _ _ E) in Hb.
-      assert (H0 : fin_count s b = 0) by (apply (si_fin_alloc _ S); exact Hb).
-      destruct (Nat.eq_dec (fin_count s' b) 0) as [Hz|Hnz].
-      * rewrite (e_owned _ _ E b Hz). apply (si_own_none _ S). exact Hb.
-      * exfalso. apply (e_src _ _ E b H0); [lia | exact Hb].
-  - intros R Ht x k b Hi Hk Hf.
-    rewrite (e_torn _ _ E) in Ht. rewrite (e_info _ _ E) in Hi.
-    assert (H0 : fin_count s x = 0) by (pose proof (e_fin _ _ E x); lia).
-    pose proof (R Ht x k b Hi Hk H0) as Hin.
-    destruct (in_dec Nat.eq_dec x (regids s')) as [Hi'|Hn]; [exact Hi'|].
-    destruct (e_regdone _ _ E x Hin Hn) as [Hd _]. lia.
+    + intros x r Hx. destruct (e_reg _ _ E _ Hx) as [Hin|[Hn Hr]].
+      * destruct (si_reginfo _ S x r Hin) as [b Hb]. exists b. rewrite (e_info _ _ E x); [exact Hb | congruence].
+      * simpl in Hn, Hr. subst r.
+        assert (Hi : info s' x <> None).
+        { apply (g_info _ _ G). left. unfold regids. apply in_map_iff. exists (x, false). auto. }
+        destruct (e_new _ _ E x Hn Hi) as (Ha & _). exists false. exact Ha.
+    + intros b p Hfb Hown. rewrite (e_owned _ _ E b Hfb) in Hown.
+      destruct (info s b) eqn:Hib.
+      * assert (H0 : fin_count s b = 0) by (pose proof (e_fin _ _ E b); lia).
+        destruct (si_own _ S b p H0 Hown) as (k1 & bb & Hi & Hk). exists k1, bb.
+        rewrite (e_info _ _ E p); [auto | congruence].
+      * rewrite (si_own_none _ S b Hib) in Hown. discriminate.
+    + intros b Hb.
+      assert (Hib : info s b = None).
+      { destruct (info s b) eqn:Hi; [|reflexivity]. rewrite <- Hb. symmetry. rewrite <- Hi. apply (e_info _ _ E). congruence. }
+      rewrite (e_owned _ _ E b (g_alloc _ _ G b Hb)). apply (si_own_none _ S). exact Hib.
+  - intros R Hra Ht x k b Hi Hk Hf.
+    rewrite (e_torn _ _ E) in Ht.
+    destruct (info s x) eqn:Hix.
+    + assert (Hi' : info s x = Some (k, b)) by (rewrite <- Hi; symmetry; apply (e_info _ _ E); congruence).
+      assert (H0 : fin_count s x = 0) by (pose proof (e_fin _ _ E x); lia).
+      pose proof (R Ht x k b Hi' Hk H0) as Hin.
+      destruct (in_dec Nat.eq_dec x (regids s')) as [Hi''|Hn]; [exact Hi''|].
+      destruct (e_regdone _ _ E x Hin Hn) as [Hd _]. lia.
+    + destruct Hra as [Hrun|Hno]; [|rewrite (Hno x Hix) in Hi; discriminate].
+      assert (Hi' : info s' x <> None) by congruence.
+      destruct (e_new _ _ E x Hix Hi') as (_ & _ & Hc).
+      destruct (Hc Hrun) as [Hr|[Hp|[Hd _]]]; [exact Hr | unfold pids in Hp; rewrite Hpe in Hp; destruct Hp | lia].
+Qed.
+
+Lemma SInv_same_core s s' :
+  reg s' = reg s -> pend s' = pend s -> log s' = log s -> info s' = info s -> ids s' = ids s -> spawns s' = spawns s ->
+  owned s' = owned s -> oof s' = oof s -> SInv s -> SInv s'.
+Proof.
+  intros Hr Hp Hl Hi Hd Hs Hw Ho S. pose proof (si_g _ S) as G.
+  assert (Hf : forall x, fin_count s' x = fin_count s x) by (intros; unfold fin_count; congruence).
+  assert (Hfr : forall x, free_count s' x = free_count s x) by (intros; unfold free_count; congruence).
+  constructor.
+  - constructor; unfold regids, pids; rewrite ?Hr, ?Hp, ?Hd.
+    + apply G. + apply G. + apply G.
+    + intros x Hx. rewrite Hf. apply (g_fresh _ _ G). exact Hx.
+    + intros x Hx. rewrite Hf, Hfr. apply (g_prog _ _ G). exact Hx.
+    + intros x Hx. rewrite Hf, Hfr. apply (g_rest _ _ G). exact Hx.
+    + intros x Hx. rewrite Hi. apply (g_info _ _ G). exact Hx.
+    + intros x Hx. rewrite Hf. rewrite Hi in Hx. apply (g_alloc _ _ G). exact Hx.
+    + apply G.
+    + intros x. rewrite Hi. apply (g_ids _ _ G).
+    + intros x Hx. rewrite Hs. rewrite Hi in Hx. apply (g_spawn _ _ G). exact Hx.
+  - rewrite Hp. apply S.
+  - rewrite Ho. apply S.
+  - intros x r Hx. rewrite Hi. rewrite Hr in Hx. apply (si_reginfo _ S). exact Hx.
+  - intros b p Hfb Hown. rewrite Hi. rewrite Hf in Hfb. rewrite Hw in Hown. apply (si_own _ S b p Hfb Hown).
+  - intros b Hb. rewrite Hw. rewrite Hi in Hb. apply (si_own_none _ S). exact Hb.
+Qed.
+
+Lemma RegAll_same_core s s' :
+  reg s' = reg s -> log s' = log s -> info s' = info s -> torn s' = torn s -> RegAll s -> RegAll s'.
+Proof.
+  intros Hr Hl Hi Ht R Ht' x k b Hx Hk Hf. unfold regids. rewrite Hr. rewrite Hi in Hx. rewrite Ht in Ht'.
+  apply (R Ht' x k b Hx Hk). unfold fin_count in *. rewrite <- Hl. exact Hf.
 Qed.
 
 Lemma SInv_set_bad s : SInv s -> SInv (set_bad s) /\ (RegAll s -> RegAll (set_bad s)).
 Proof.
-  intros S. split; [|intros R; exact R].
-  constructor; try apply S. destruct (si_g _ S). constructor; assumption.
+  intros S. split; [apply (SInv_same_core s); auto | apply RegAll_same_core; reflexivity].
 Qed.
 
 Lemma SInv_set_bad' s (P : Prop) : SInv s -> SInv (set_bad s) /\ (RegAll s -> P -> RegAll (set_bad s)).
@@ -1096,25 +1141,13 @@ Proof.
       * intros y [].
       * intros y _. unfold free_count, fin_count, count, init; simpl; lia.
       * intros y [[]|[]].
+      * intros y _. reflexivity.
+      * constructor.
+      * intros y. simpl. split; [intros [] | intros H; exfalso; apply H; reflexivity].
+      * intros y _. reflexivity.
     + intros y r [].
-    + intros y. simpl. split; [intros [] | intros H; exfalso; apply H; reflexivity].
     + intros b p _ H. discriminate.
   - intros _ y k b H. discriminate.
-Qed.
-
-Lemma GInv_same_core A s s' :
-  reg s' = reg s -> pend s' = pend s -> log s' = log s -> info s' = info s -> GInv A s -> GInv A s'.
-Proof.
-  intros Hr Hp Hl Hi G.
-  assert (Hf : forall x, fin_count s' x = fin_count s x) by (intros; unfold fin_count; congruence).
-  assert (Hfr : forall x, free_count s' x = free_count s x) by (intros; unfold free_count; congruence).
-  unfold regids, pids in *.
-  constructor; unfold regids, pids; rewrite ?Hr, ?Hp.
-  - apply G. - apply G. - apply G.
-  - intros x Hx. rewrite Hf. apply (g_fresh _ _ G). exact Hx.
-  - intros x Hx. rewrite Hf, Hfr. apply (g_prog _ _ G). exact Hx.
-  - intros x Hx. rewrite Hf, Hfr. apply (g_rest _ _ G). exact Hx.
-  - intros x Hx. rewrite Hi. apply (g_info _ _ G). exact Hx.
 Qed.
 
 Lemma is_root_false s x :
@@ -1132,95 +1165,149 @@ Lemma register_ok s o (r : bool) :
   SInv (set_reg ((o, r) :: reg s) s).
 Proof.
   intros S Hno Hfo [b Hb]. pose proof (si_g _ S) as G. pose proof (si_pend _ S) as Hpe.
-  constructor.
-  - constructor.
-    + simpl. constructor; [exact Hno | apply G].
-    + apply G.
-    + intros x Hx. unfold pids. simpl pend. rewrite Hpe. intros [].
-    + intros x [[<-|Hx]|Hx]; [exact Hfo | apply (g_fresh _ _ G); left; exact Hx | apply (g_fresh _ _ G); right; exact Hx].
-    + intros x [].
-    + apply G.
-    + intros x [[<-|Hx]|Hx]; [simpl; rewrite Hb; discriminate | apply (g_info _ _ G); left; exact Hx | apply (g_info _ _ G); right; exact Hx].
-  - exact Hpe.
-  - apply S.
+  constructor; try apply S.
+  - apply register_ginv; [exact G | exact Hno | unfold pids; rewrite Hpe; intros [] | exact Hfo | congruence].
   - intros x r' [Hx|Hx]; [inversion Hx; subst; exists b; exact Hb | apply (si_reginfo _ S); exact Hx].
-  - apply S.
-  - apply S.
-  - apply S.
-  - apply S.
+Qed.
+
+Lemma add_obj_ok s o k b : SInv s -> info s o = None -> SInv (add_obj o k b s).
+Proof.
+  intros S Hinfo. pose proof (si_g _ S) as G.
+  set (s1 := add_obj o k b s).
+  assert (Hno : ~ In o (regids s)).
+  { intros Hin. apply (g_info _ _ G o (or_introl Hin)). exact Hinfo. }
+  assert (Hinfo1 : forall x, x <> o -> info s1 x = info s x).
+  { intros x Hne. unfold s1. simpl. destruct (Nat.eqb_spec x o); [contradiction | reflexivity]. }
+  assert (Hinfo1o : info s1 o = Some (k, b)) by (unfold s1; simpl; rewrite Nat.eqb_refl; reflexivity).
+  constructor; try apply S.
+  - apply add_obj_ginv; assumption.
+  - intros x r Hx. destruct (Nat.eq_dec x o) as [->|Hne].
+    + exfalso. apply Hno. unfold regids. apply in_map_iff. exists (o, r). auto.
+    + rewrite (Hinfo1 x Hne). apply (si_reginfo _ S). exact Hx.
+  - intros b' p Hfb Hown. destruct (si_own _ S b' p Hfb Hown) as (k1 & bb & Hi & Hk1).
+    destruct (Nat.eq_dec p o) as [->|Hne]; [congruence|].
+    exists k1, bb. rewrite (Hinfo1 p Hne). auto.
+  - intros b' Hb. destruct (Nat.eq_dec b' o) as [->|Hne]; [rewrite Hinfo1o in Hb; discriminate|].
+    rewrite (Hinfo1 b' Hne) in Hb. apply (si_own_none _ S). exact Hb.
+Qed.
+
+(* destructors that run while the collector is stopped and have nothing to allocate leave the
+   set of allocated objects alone *)
+Lemma finalise_stopped_info f s o :
+  running s = false -> spawns s o = [] ->
+  info (finF f s o) = info s /\ running (finF f s o) = false /\ spawns (finF f s o) = spawns s /\
+  pend (finF f s o) = pend s.
+Proof.
+  intros Hr Hs. destruct f; cbn [finalise]; [auto|].
+  change (spawns (add_log (LFin o) s) o) with (spawns s o). rewrite Hs. simpl fold_left.
+  destruct (owned (add_log (LFin o) s) o); [|auto].
+  unfold gc_rem. change (running (add_log (LFin o) s)) with (running s). rewrite Hr. simpl. auto.
+Qed.
+
+Lemma no_spawners_spec s x : no_spawners s = true -> In x (ids s) -> fin_count s x = 0 -> spawns s x = [].
+Proof.
+  unfold no_spawners. rewrite forallb_forall. intros H Hin Hf. specialize (H x Hin).
+  destruct (spawns s x); [reflexivity|]. apply fin_started_spec in Hf. congruence.
+Qed.
+
+Lemma sweep_loop_stopped k : forall i s,
+  running s = false -> (forall x, In x (pids s) -> spawns s x = []) ->
+  let s' := sweep_loop true finT k i s in
+  info s' = info s /\ running s' = false /\ spawns s' = spawns s.
+Proof.
+  induction k as [|k IH]; intros i s Hr Hsp; cbn [sweep_loop]; [auto|].
+  destruct (nth i (pend s) None) as [o|] eqn:Hn.
+  - set (s0 := set_pend (null_pend o (pend s)) s).
+    assert (Ho : spawns s0 o = []) by (apply Hsp; eapply nth_in_somes; exact Hn).
+    destruct (finalise_stopped_info (fuel_of s0) s0 o Hr Ho) as (Hi & Hr' & Hs' & Hp').
+    fold (finT s0 o) in Hi, Hr', Hs', Hp'.
+    destruct (IH (S i) (finT s0 o) Hr') as (A1 & A2 & A3).
+    + intros x Hx. rewrite Hs'. apply Hsp. unfold pids in Hx. rewrite Hp' in Hx.
+      unfold s0 in Hx. simpl pend in Hx. rewrite somes_null, filter_In in Hx. tauto.
+    + rewrite A1, A3, Hi, Hs'. auto.
+  - apply IH; assumption.
+Qed.
+
+(* a sweep while the collector is stopped, when no object that is still to be finalised has an
+   allocating destructor, allocates nothing *)
+Lemma sweep_stopped order marks s :
+  SInv s -> running s = false -> no_spawners s = true ->
+  forall x, info s x = None -> info (sweepT order marks s) x = None.
+Proof.
+  intros S Hr Hns x Hx. unfold sweep. cbn [info set_pend].
+  match goal with |- info (sweep_loop true finT ?k 0 ?s1) x = None => destruct (sweep_loop_stopped k 0 s1) as (A1 & _) end.
+  - exact Hr.
+  - intros y Hy. cbn [spawns set_mitems set_pend set_reg]. unfold pids in Hy. cbn [pend set_mitems set_pend] in Hy.
+    rewrite somes_map_Some in Hy. apply filter_In in Hy. destruct Hy as [Hy _].
+    destruct (arrange_spec order s (g_reg_nodup _ _ (si_g _ S))) as [_ Hain]. apply Hain in Hy.
+    apply (no_spawners_spec s y Hns).
+    + apply (si_ids _ S). apply (g_info _ _ (si_g _ S)). left. exact Hy.
+    + apply (g_fresh _ _ (si_g _ S)). left. exact Hy.
+  - rewrite A1. exact Hx.
+Qed.
+
+Lemma GInv_same_core A s s' :
+  reg s' = reg s -> pend s' = pend s -> log s' = log s -> info s' = info s -> ids s' = ids s -> spawns s' = spawns s ->
+  GInv A s -> GInv A s'.
+Proof.
+  intros Hr Hp Hl Hi Hd Hs G.
+  assert (Hf : forall x, fin_count s' x = fin_count s x) by (intros; unfold fin_count; congruence).
+  assert (Hfr : forall x, free_count s' x = free_count s x) by (intros; unfold free_count; congruence).
+  constructor; unfold regids, pids; rewrite ?Hr, ?Hp, ?Hd.
+  - apply G. - apply G. - apply G.
+  - intros x Hx. rewrite Hf. apply (g_fresh _ _ G). exact Hx.
+  - intros x Hx. rewrite Hf, Hfr. apply (g_prog _ _ G). exact Hx.
+  - intros x Hx. rewrite Hf, Hfr. apply (g_rest _ _ G). exact Hx.
+  - intros x Hx. rewrite Hi. apply (g_info _ _ G). exact Hx.
+  - intros x Hx. rewrite Hf. rewrite Hi in Hx. apply (g_alloc _ _ G). exact Hx.
+  - apply G.
+  - intros x. rewrite Hi. apply (g_ids _ _ G).
+  - intros x Hx. rewrite Hs. rewrite Hi in Hx. apply (g_spawn _ _ G). exact Hx.
 Qed.
 
 (* one event of the repaired machine *)
 Lemma step1_ok s e :
   SInv s -> torn s = false ->
-  SInv (step1 true true s e) /\ (RegAll s -> alloc_ok s e = true -> RegAll (step1 true true s e)).
+  SInv (step1F s e) /\ (RegAll s -> alloc_ok s e = true -> RegAll (step1F s e)).
 Proof.
   intros S Ht. pose proof (si_g _ S) as G. pose proof (si_pend _ S) as Hpe.
-  destruct e as [k isbox o order marks | b [o|] | k o | order marks | | | order]; cbn [step1].
+  destruct e as [k isbox o order marks | b [o|] | k o | order marks | | | order | o cs | q]; cbn [step1].
   - (* ENew *)
     destruct (info s o) as [[k0 b0]|] eqn:Hinfo; [apply SInv_set_bad'; exact S|].
     set (s1 := add_obj o k isbox s).
+    pose proof (add_obj_ok s o k isbox S Hinfo) as S1. fold s1 in S1.
     assert (Hfo : fin_count s o = 0) by (apply (si_fin_alloc _ S); exact Hinfo).
     assert (Hno : ~ In o (regids s)).
     { intros Hin. apply (g_info _ _ G o (or_introl Hin)). exact Hinfo. }
     assert (Hinfo1 : forall x, x <> o -> info s1 x = info s x).
     { intros x Hne. unfold s1. simpl. destruct (Nat.eqb_spec x o); [contradiction | reflexivity]. }
     assert (Hinfo1o : info s1 o = Some (k, isbox)) by (unfold s1; simpl; rewrite Nat.eqb_refl; reflexivity).
-    assert (S1 : SInv s1).
-    { constructor; try apply S.
-      - constructor; try apply G. intros x Hx. destruct (Nat.eq_dec x o) as [->|Hne].
-        + rewrite Hinfo1o. discriminate.
-        + rewrite (Hinfo1 x Hne). apply (g_info _ _ G). exact Hx.
-      - intros x r Hx. destruct (Nat.eq_dec x o) as [->|Hne].
-        + exfalso. apply Hno. unfold regids. apply in_map_iff. exists (o, r). auto.
-        + rewrite (Hinfo1 x Hne). apply (si_reginfo _ S). exact Hx.
-      - intros x Hx. destruct (Nat.eq_dec x o) as [->|Hne]; [exact Hfo|].
-        rewrite (Hinfo1 x Hne) in Hx. apply (si_fin_alloc _ S). exact Hx.
-      - intros x. destruct (Nat.eq_dec x o) as [->|Hne].
-        + rewrite Hinfo1o. split; [discriminate | intros _; left; reflexivity].
-        + rewrite (Hinfo1 x Hne). unfold s1. simpl ids. split.
-          * intros [Hx|Hx]; [congruence | apply (si_ids _ S); exact Hx].
-          * intros Hx. right. apply (si_ids _ S). exact Hx.
-      - intros b p Hfb Hown. destruct (si_own _ S b p Hfb Hown) as (k1 & bb & Hi & Hk1).
-        destruct (Nat.eq_dec p o) as [->|Hne]; [congruence|].
-        exists k1, bb. rewrite (Hinfo1 p Hne). auto.
-      - intros b Hb. destruct (Nat.eq_dec b o) as [->|Hne]; [rewrite Hinfo1o in Hb; discriminate|].
-        rewrite (Hinfo1 b Hne) in Hb. apply (si_own_none _ S). exact Hb. }
     assert (R1 : RegAll s -> k = KRaw -> RegAll s1).
     { intros R Hk _ x k' b' Hi Hk' Hf. destruct (Nat.eq_dec x o) as [->|Hne].
       - rewrite Hinfo1o in Hi. congruence.
       - rewrite (Hinfo1 x Hne) in Hi. apply (R Ht x k' b' Hi Hk' Hf). }
+    assert (Reg : forall r : bool, (exists bb, info s1 o = Some ((if r then KRoot else KManaged), bb)) ->
+      running s = true ->
+      let s2 := set_reg ((o, r) :: reg s1) s1 in
+      SInv (if mitems s2 <? nitems s2 then sweepT order (o :: marks) s2 else s2) /\
+      (RegAll s -> RegAll (if mitems s2 <? nitems s2 then sweepT order (o :: marks) s2 else s2))).
+    { intros r Hr Hrun s2.
+      assert (S2 : SInv s2) by (apply register_ok; [exact S1 | exact Hno | exact Hfo | exact Hr]).
+      assert (R2 : RegAll s -> RegAll s2).
+      { intros R _ x k' b' Hi Hk' Hf. destruct (Nat.eq_dec x o) as [->|Hne]; [left; reflexivity|].
+        right. assert (Hi' : info s1 x = Some (k', b')) by exact Hi.
+        rewrite (Hinfo1 x Hne) in Hi'. apply (R Ht x k' b' Hi' Hk' Hf). }
+      destruct (mitems s2 <? nitems s2); [|split; assumption].
+      destruct (sweep_ok finT (1 + measure s2) (fin_top_ok _) order (o :: marks) [] s2 (si_g _ S2) (si_pend _ S2) ltac:(lia))
+        as (G3 & P3 & E3 & _).
+      destruct (SInv_ext _ _ S2 G3 E3) as [S3 R3]. split; [exact S3|]. intros R. apply R3; [apply R2, R | left; exact Hrun]. }
     destruct k.
-    + (* managed *)
-      change (running s1) with (running s). destruct (running s) eqn:Hrun; simpl negb; cbv iota.
+    + change (running s1) with (running s). destruct (running s) eqn:Hrun; simpl negb; cbv iota.
       2:{ split; [exact S1|]. intros _ Hc. unfold alloc_ok in Hc. rewrite Hrun in Hc. discriminate. }
-      set (s2 := set_reg ((o, kind_eqb KManaged KRoot) :: reg s1) s1).
-      assert (S2 : SInv s2 /\ (RegAll s -> RegAll s2)).
-      { split.
-        - apply register_ok; [exact S1 | exact Hno | exact Hfo | exists isbox; exact Hinfo1o].
-        - intros R _ x k' b' Hi Hk' Hf. destruct (Nat.eq_dec x o) as [->|Hne]; [left; reflexivity|].
-          right. assert (Hi' : info s1 x = Some (k', b')) by exact Hi.
-          rewrite (Hinfo1 x Hne) in Hi'. apply (R Ht x k' b' Hi' Hk' Hf). }
-      destruct S2 as [S2 R2].
-      destruct (mitems s2 <? nitems s2).
-      * destruct (sweep_ok order (o :: marks) s2 (si_g _ S2) (si_pend _ S2)) as (G3 & P3 & E3 & _).
-        destruct (SInv_ext _ _ S2 G3 E3) as [S3 R3]. split; [exact S3|]. intros R _. apply R3, R2, R.
-      * split; [exact S2|]. intros R _. apply R2, R.
-    + (* root *)
-      change (running s1) with (running s). destruct (running s) eqn:Hrun; simpl negb; cbv iota.
+      destruct (Reg false ltac:(exists isbox; exact Hinfo1o) eq_refl) as [S3 R3]. split; [exact S3 | intros R _; apply R3, R].
+    + change (running s1) with (running s). destruct (running s) eqn:Hrun; simpl negb; cbv iota.
       2:{ split; [exact S1|]. intros _ Hc. unfold alloc_ok in Hc. rewrite Hrun in Hc. discriminate. }
-      set (s2 := set_reg ((o, kind_eqb KRoot KRoot) :: reg s1) s1).
-      assert (S2 : SInv s2 /\ (RegAll s -> RegAll s2)).
-      { split.
-        - apply register_ok; [exact S1 | exact Hno | exact Hfo | exists isbox; exact Hinfo1o].
-        - intros R _ x k' b' Hi Hk' Hf. destruct (Nat.eq_dec x o) as [->|Hne]; [left; reflexivity|].
-          right. assert (Hi' : info s1 x = Some (k', b')) by exact Hi.
-          rewrite (Hinfo1 x Hne) in Hi'. apply (R Ht x k' b' Hi' Hk' Hf). }
-      destruct S2 as [S2 R2].
-      destruct (mitems s2 <? nitems s2).
-      * destruct (sweep_ok order (o :: marks) s2 (si_g _ S2) (si_pend _ S2)) as (G3 & P3 & E3 & _).
-        destruct (SInv_ext _ _ S2 G3 E3) as [S3 R3]. split; [exact S3|]. intros R _. apply R3, R2, R.
-      * split; [exact S2|]. intros R _. apply R2, R.
+      destruct (Reg true ltac:(exists isbox; exact Hinfo1o) eq_refl) as [S3 R3]. split; [exact S3 | intros R _; apply R3, R].
     + split; [exact S1|]. intros R _. apply R1; auto.
   - (* ELink b (Some o) *)
     match goal with |- context [if ?c then _ else _] => destruct c eqn:Hc end; [|apply SInv_set_bad'; exact S].
@@ -1229,78 +1316,93 @@ Proof.
     apply andb_true_iff in Hc. destruct Hc as [Hc Hlo].
     apply andb_true_iff in Hc. destruct Hc as [Hlb _].
     destruct (live_spec _ _ Hlb) as [_ Hib]. destruct (live_spec _ _ Hlo) as [_ Hio].
-    split.
-    + constructor; try apply S.
-      * eapply GInv_same_core; try exact G; reflexivity.
-      * intros b' p Hfb Hown. cbn [owned set_owned] in Hown. unfold upd_owned in Hown.
-        change (info (set_owned (upd_owned (owned s) b (Some o)) s) p) with (info s p).
-        destruct (Nat.eqb_spec b' b) as [->|Hne].
-        -- inversion Hown; subst p. unfold kind_of in Hraw.
-           destruct (info s o) as [[k1 bb]|]; [|congruence]. simpl in Hraw.
-           exists k1, bb. split; [reflexivity|]. intros ->. discriminate.
-        -- apply (si_own _ S b' p Hfb Hown).
-      * intros b' Hb'. cbn [owned set_owned]. unfold upd_owned.
-        destruct (Nat.eqb_spec b' b) as [->|Hne]; [contradiction | apply (si_own_none _ S); exact Hb'].
-    + intros R _. exact R.
+    split; [|intros R _; exact R].
+    constructor; try apply S.
+    + eapply GInv_same_core; try exact G; reflexivity.
+    + intros b' p Hfb Hown. cbn [owned set_owned] in Hown. unfold upd_owned in Hown.
+      change (info (set_owned (upd_owned (owned s) b (Some o)) s) p) with (info s p).
+      destruct (Nat.eqb_spec b' b) as [->|Hne].
+      * inversion Hown; subst p. unfold kind_of in Hraw.
+        destruct (info s o) as [[k1 bb]|]; [|congruence]. simpl in Hraw.
+        exists k1, bb. split; [reflexivity|]. intros ->. discriminate.
+      * apply (si_own _ S b' p Hfb Hown).
+    + intros b' Hb'. cbn [owned set_owned]. unfold upd_owned.
+      destruct (Nat.eqb_spec b' b) as [->|Hne]; [contradiction | apply (si_own_none _ S); exact Hb'].
   - (* ELink b None *)
     match goal with |- context [if ?c then _ else _] => destruct c eqn:Hc end; [|apply SInv_set_bad'; exact S].
-    split.
-    + constructor; try apply S.
-      * eapply GInv_same_core; try exact G; reflexivity.
-      * intros b' p Hfb Hown. cbn [owned set_owned] in Hown. unfold upd_owned in Hown.
-        destruct (Nat.eqb_spec b' b) as [->|Hne]; [discriminate | apply (si_own _ S b' p Hfb Hown)].
-      * intros b' Hb'. cbn [owned set_owned]. unfold upd_owned.
-        destruct (Nat.eqb_spec b' b) as [->|Hne]; [reflexivity | apply (si_own_none _ S); exact Hb'].
-    + intros R _. exact R.
+    split; [|intros R _; exact R].
+    constructor; try apply S.
+    + eapply GInv_same_core; try exact G; reflexivity.
+    + intros b' p Hfb Hown. cbn [owned set_owned] in Hown. unfold upd_owned in Hown.
+      destruct (Nat.eqb_spec b' b) as [->|Hne]; [discriminate | apply (si_own _ S b' p Hfb Hown)].
+    + intros b' Hb'. cbn [owned set_owned]. unfold upd_owned.
+      destruct (Nat.eqb_spec b' b) as [->|Hne]; [reflexivity | apply (si_own_none _ S); exact Hb'].
   - (* EDel *)
     destruct (live s o) eqn:Hlive; simpl andb; cbv iota; [|apply SInv_set_bad'; exact S].
     destruct (live_spec _ _ Hlive) as [Hf0 Hinf].
     destruct (kind_of s o) as [k'|] eqn:Hk; [|apply SInv_set_bad'; exact S].
     destruct (kind_eqb k k') eqn:Hkk; [|apply SInv_set_bad'; exact S].
     assert (Hkeq : k = k') by (destruct k, k'; simpl in Hkk; congruence). subst k'.
+    assert (Rem : SInv (gc_rem true finT s o) /\ (RegAll s -> RegAll (gc_rem true finT s o))).
+    { destruct (running s) eqn:Hrun.
+      - destruct (gc_rem_ok finT (1 + measure s) (fin_top_ok _) [] s o G ltac:(lia)) as (G' & E' & _).
+        destruct (SInv_ext _ _ S G' E') as [S' R']. split; [exact S'|]. intros R. apply R'; [exact R | left; exact Hrun].
+      - unfold gc_rem. rewrite Hrun. simpl. split; [exact S | auto]. }
     destruct k.
-    + destruct (gc_rem_ok _ _ (finalise_ok (fuel_of s)) [] s o G ltac:(unfold fuel_of, measure; lia)) as (G' & E' & _).
-      destruct (SInv_ext _ _ S G' E') as [S' R']. split; [exact S'|]. intros R _. apply R', R.
-    + destruct (gc_rem_ok _ _ (finalise_ok (fuel_of s)) [] s o G ltac:(unfold fuel_of, measure; lia)) as (G' & E' & _).
-      destruct (SInv_ext _ _ S G' E') as [S' R']. split; [exact S'|]. intros R _. apply R', R.
+    + destruct Rem as [S' R']. split; [exact S' | intros R _; apply R', R].
+    + destruct Rem as [S' R']. split; [exact S' | intros R _; apply R', R].
     + assert (Hno : ~ In o (regids s)).
       { intros Hin. unfold regids in Hin. apply in_map_iff in Hin. destruct Hin as [[y r] [Hy Hin]]. simpl in Hy. subst y.
         destruct (si_reginfo _ S o r Hin) as [b' Hb']. unfold kind_of in Hk. rewrite Hb' in Hk. simpl in Hk. destruct r; discriminate. }
       assert (Hnp : ~ In o (pids s)) by (unfold pids; rewrite Hpe; intros []).
-      destruct (finalise_ok (fuel_of s) [] s o G Hno Hnp Hf0 Hinf ltac:(unfold fuel_of, measure; lia)) as (G' & E' & _).
-      destruct (SInv_ext _ _ S G' E') as [S' R']. split; [exact S'|]. intros R _. apply R', R.
+      destruct (fin_top_ok (1 + measure s) [] s o G Hno Hnp Hf0 Hinf ltac:(lia)) as (G' & E' & _).
+      destruct (SInv_ext _ _ S G' E') as [S' R']. split; [exact S'|]. intros R Hc. apply R'; [exact R|].
+      destruct (running s) eqn:Hrun; [left; reflexivity|]. right.
+      unfold alloc_ok in Hc. rewrite Hrun in Hc. simpl in Hc.
+      destruct (spawns s o) eqn:Hsp; [|discriminate].
+      destruct (finalise_stopped_info (fuel_of s) s o Hrun Hsp) as (Hi & _).
+      intros x Hx. unfold fin_top. rewrite Hi. exact Hx.
   - (* ECollect *)
-    destruct (sweep_ok order marks s G Hpe) as (G3 & P3 & E3 & _).
-    destruct (SInv_ext _ _ S G3 E3) as [S3 R3]. split; [exact S3|]. intros R _. apply R3, R.
+    destruct (sweep_ok finT (1 + measure s) (fin_top_ok _) order marks [] s G Hpe ltac:(lia)) as (G3 & P3 & E3 & _).
+    destruct (SInv_ext _ _ S G3 E3) as [S3 R3]. split; [exact S3|]. intros R Hc. apply R3; [exact R|].
+    destruct (running s) eqn:Hrun; [left; reflexivity|]. right.
+    unfold alloc_ok in Hc. rewrite Hrun in Hc. simpl in Hc.
+    apply sweep_stopped; assumption.
   - (* EStop *)
-    split.
-    + constructor; try apply S. eapply GInv_same_core; try exact G; reflexivity.
-    + intros R _. exact R.
+    split; [apply (SInv_same_core s); auto | intros R _; apply (RegAll_same_core s); auto].
   - (* EStart *)
-    split.
-    + constructor; try apply S. eapply GInv_same_core; try exact G; reflexivity.
-    + intros R _. exact R.
+    split; [apply (SInv_same_core s); auto | intros R _; apply (RegAll_same_core s); auto].
   - (* ETeardown *)
-    destruct (sweep_ok order [] s G Hpe) as (G3 & P3 & E3 & _).
+    destruct (sweep_ok finT (1 + measure s) (fin_top_ok _) order [] [] s G Hpe ltac:(lia)) as (G3 & P3 & E3 & _).
     destruct (SInv_ext _ _ S G3 E3) as [S3 R3].
-    split.
+    split; [|intros _ _ Hc; discriminate].
+    constructor.
     + constructor.
-      * constructor.
-        -- simpl. constructor.
-        -- apply G3.
-        -- intros x Hx. destruct Hx.
-        -- intros x Hx. destruct Hx as [Hx|Hx]; [destruct Hx|]. apply (g_fresh _ _ G3). right. exact Hx.
-        -- apply G3.
-        -- apply G3.
-        -- intros x Hx. destruct Hx as [Hx|Hx]; [destruct Hx|]. apply (g_info _ _ G3). right. exact Hx.
-      * exact P3.
-      * apply S3.
-      * intros x r [].
-      * apply S3.
-      * apply S3.
-      * apply S3.
-      * apply S3.
-    + intros _ _ Hc. discriminate.
+      * simpl. constructor.
+      * apply G3.
+      * intros x Hx. destruct Hx.
+      * intros x Hx. destruct Hx as [Hx|Hx]; [destruct Hx|]. apply (g_fresh _ _ G3). right. exact Hx.
+      * apply G3.
+      * apply G3.
+      * intros x Hx. destruct Hx as [Hx|Hx]; [destruct Hx|]. apply (g_info _ _ G3). right. exact Hx.
+      * apply G3.
+      * apply G3.
+      * apply G3.
+      * apply G3.
+    + exact P3.
+    + apply S3.
+    + intros x r [].
+    + apply S3.
+    + apply S3.
+  - (* ESpawn *)
+    destruct (live s o) eqn:Hlive; [|apply SInv_set_bad'; exact S].
+    destruct (live_spec _ _ Hlive) as [_ Hio].
+    split; [|intros R _; apply (RegAll_same_core s); auto].
+    constructor; try apply S.
+    constructor; try apply G.
+    intros x Hx. cbn [spawns set_spawns]. destruct (Nat.eqb_spec x o) as [->|Hne]; [contradiction | apply (g_spawn _ _ G); exact Hx].
+  - (* EObs *)
+    split; [apply (SInv_same_core s); auto | intros R _; apply (RegAll_same_core s); auto].
 Qed.
 
 Lemma step_ok s e :
@@ -1309,7 +1411,7 @@ Proof.
   intros S. unfold step. destruct (torn s) eqn:Ht.
   - apply SInv_set_bad'. exact S.
   - destruct (step1_ok s e S Ht) as [S1 R1].
-    destruct (dangling (step1 true true s e)).
+    destruct (dangling (step1F s e)).
     + destruct (SInv_set_bad _ S1) as [S2 R2]. split; [exact S2|]. intros R C. apply R2, R1; assumption.
     + split; assumption.
 Qed.
@@ -1318,7 +1420,7 @@ Lemma run_snoc h e : runF (h ++ [e]) = stepF (runF h) e.
 Proof. unfold run. rewrite fold_left_app. reflexivity. Qed.
 
 Lemma all_from_snoc c h e s :
-  all_from true true c s (h ++ [e]) = all_from true true c s h && c (fold_left stepF h s) e.
+  all_from true true true c s (h ++ [e]) = all_from true true true c s h && c (fold_left stepF h s) e.
 Proof.
   revert s. induction h as [|a h IH]; intros s; simpl.
   - rewrite andb_true_r. reflexivity.
@@ -1332,7 +1434,7 @@ Proof.
   - rewrite run_snoc. apply step_ok. exact IH.
 Qed.
 
-Lemma run_regall h : no_alloc_in_stop_window true true h = true -> RegAll (runF h).
+Lemma run_regall h : no_alloc_in_stop_window true true true h = true -> RegAll (runF h).
 Proof.
   induction h as [|e h IH] using rev_ind; intros Hc.
   - apply SInv_init.
@@ -1343,19 +1445,20 @@ Qed.
 Lemma stop_ok_alloc_ok s e : stop_ok s e = true -> alloc_ok s e = true.
 Proof.
   unfold stop_ok, alloc_ok. destruct (running s); simpl; auto.
-  destruct e as [[| |] ? ? ? ?| | | | | |]; auto.
+  destruct e as [[| |] ? ? ? ?| ? ? | [| |] o | ? ? | | | ? | ? ? | ?]; auto; try discriminate.
+  destruct (owned s o); [discriminate|]. destruct (spawns s o); auto.
 Qed.
 
 Lemma all_from_weaken (c1 c2 : st -> ev -> bool) :
   (forall s e, c1 s e = true -> c2 s e = true) ->
-  forall h s, all_from true true c1 s h = true -> all_from true true c2 s h = true.
+  forall h s, all_from true true true c1 s h = true -> all_from true true true c2 s h = true.
 Proof.
   intros Hc. induction h as [|e h IH]; intros s H; simpl in *; auto.
   apply andb_true_iff in H. destruct H as [H1 H2]. rewrite (Hc _ _ H1). simpl. apply IH. exact H2.
 Qed.
 
 Lemma stop_clean_alloc_clean h :
-  no_alloc_or_del_in_stop_window true true h = true -> no_alloc_in_stop_window true true h = true.
+  no_alloc_or_del_in_stop_window true true true h = true -> no_alloc_in_stop_window true true true h = true.
 Proof. apply all_from_weaken. apply stop_ok_alloc_ok. Qed.
 
 (* ------------------------------------------------------------------ the theorems *)
@@ -1375,14 +1478,14 @@ Proof. split; [apply (si_oof _ (run_inv h)) | apply (si_pend _ (run_inv h))]. Qe
 
 Lemma log_set_bad s : log (set_bad s) = log s. Proof. reflexivity. Qed.
 
-Lemma done_step_of_step1 s e x : torn s = false -> done (step1 true true s e) x -> done (stepF s e) x.
+Lemma done_step_of_step1 s e x : torn s = false -> done (step1F s e) x -> done (stepF s e) x.
 Proof.
-  intros Ht Hd. unfold step. rewrite Ht. destruct (dangling (step1 true true s e)); exact Hd.
+  intros Ht Hd. unfold step. rewrite Ht. destruct (dangling (step1F s e)); exact Hd.
 Qed.
 
 (* T2: an explicit del / del_root (collector running) or del_raw finalises the object, once, now *)
 Theorem explicit_delete_finalises h k o :
-  no_alloc_in_stop_window true true h = true ->
+  no_alloc_in_stop_window true true true h = true ->
   torn (runF h) = false -> live (runF h) o = true -> kind_of (runF h) o = Some k ->
   (k = KRaw \/ running (runF h) = true) ->
   done (runF (h ++ [EDel k o])) o.
@@ -1399,23 +1502,23 @@ Proof.
     simpl in Hk. inversion Hk; subst k'. apply (R Ht o k b' Hi Hne Hf0). }
   destruct k.
   - destruct Hrun as [Hrun|Hrun]; [discriminate|].
-    destruct (gc_rem_ok _ _ (finalise_ok (fuel_of s)) [] s o G ltac:(unfold fuel_of, measure; lia)) as (_ & _ & Hd & _).
+    destruct (gc_rem_ok finT (1 + measure s) (fin_top_ok _) [] s o G ltac:(lia)) as (_ & _ & Hd & _).
     apply Hd; [exact Hrun | left; apply Hreg; discriminate].
   - destruct Hrun as [Hrun|Hrun]; [discriminate|].
-    destruct (gc_rem_ok _ _ (finalise_ok (fuel_of s)) [] s o G ltac:(unfold fuel_of, measure; lia)) as (_ & _ & Hd & _).
+    destruct (gc_rem_ok finT (1 + measure s) (fin_top_ok _) [] s o G ltac:(lia)) as (_ & _ & Hd & _).
     apply Hd; [exact Hrun | left; apply Hreg; discriminate].
   - assert (Hno : ~ In o (regids s)).
     { intros Hin. unfold regids in Hin. apply in_map_iff in Hin. destruct Hin as [[y r] [Hy Hin]]. simpl in Hy. subst y.
       destruct (si_reginfo _ S o r Hin) as [b' Hb']. unfold kind_of in Hk. rewrite Hb' in Hk. simpl in Hk. destruct r; discriminate. }
     assert (Hnp : ~ In o (pids s)) by (unfold pids; rewrite Hpe; intros []).
-    destruct (finalise_ok (fuel_of s) [] s o G Hno Hnp Hf0 Hinf ltac:(unfold fuel_of, measure; lia)) as (_ & _ & Hd & _).
+    destruct (fin_top_ok (1 + measure s) [] s o G Hno Hnp Hf0 Hinf ltac:(lia)) as (_ & _ & Hd & _).
     exact Hd.
 Qed.
 
 (* T3: teardown (thread exit, Cello_Exit) leaves no managed object behind: each one has been
    finalised exactly once, by a collection, a del, an owning Box, or now *)
 Theorem teardown_complete h order x b :
-  no_alloc_in_stop_window true true h = true ->
+  no_alloc_in_stop_window true true true h = true ->
   torn (runF h) = false -> info (runF h) x = Some (KManaged, b) ->
   done (runF (h ++ [ETeardown order])) x.
 Proof.
@@ -1424,8 +1527,8 @@ Proof.
   set (s := runF h) in *. apply done_step_of_step1; [exact Ht|].
   pose proof (si_g _ S) as G. pose proof (si_pend _ S) as Hpe.
   cbn [step1].
-  destruct (sweep_ok order [] s G Hpe) as (G3 & P3 & E3 & Hdead & _).
-  assert (Hd : done (sweep true true order [] s) x).
+  destruct (sweep_ok finT (1 + measure s) (fin_top_ok _) order [] [] s G Hpe ltac:(lia)) as (G3 & P3 & E3 & Hdead & _).
+  assert (Hd : done (sweepT order [] s) x).
   { destruct (Nat.eq_dec (fin_count s x) 0) as [Hz|Hnz].
     - apply Hdead.
       + apply (R Ht x KManaged b Hi); [discriminate | exact Hz].
@@ -1442,8 +1545,8 @@ Definition d18_history : list ev :=
   [ENew KManaged true 1 [] []; ENew KManaged false 2 [] [1]; ELink 1 (Some 2); ECollect [1; 2] []; ETeardown []].
 
 Theorem lifecycle_d18_refuted_pinned :
-  let s := run false false d18_history in
-  no_alloc_or_del_in_stop_window false false d18_history = true /\ bad s = false /\ torn s = true /\
+  let s := run false false true d18_history in
+  no_alloc_or_del_in_stop_window false false true d18_history = true /\ bad s = false /\ torn s = true /\
   info s 2 = Some (KManaged, false) /\ fin_count s 2 = 0 /\ free_count s 2 = 0.
 Proof. vm_compute. repeat split; reflexivity. Qed.
 
@@ -1457,11 +1560,28 @@ Proof. vm_compute. repeat split; reflexivity. Qed.
 Definition selfbox_history : list ev := [ENew KManaged true 1 [] []; ELink 1 (Some 1); ECollect [] []].
 
 Theorem lifecycle_sweep_order_refuted_half_repair :
-  let s := run true false selfbox_history in bad s = false /\ fin_count s 1 = 2 /\ free_count s 1 = 2.
+  let s := run true false true selfbox_history in bad s = false /\ fin_count s 1 = 2 /\ free_count s 1 = 2.
 Proof. vm_compute. repeat split; reflexivity. Qed.
 
 Example selfbox_history_repaired :
   let s := runF selfbox_history in bad s = false /\ fin_count s 1 = 1 /\ free_count s 1 = 1.
+Proof. vm_compute. repeat split; reflexivity. Qed.
+
+(* D22: the pinned GC_Set starts a collection from inside the running sweep when an allocation
+   made by a destructor crosses the threshold; the nested sweep takes over the one pending list
+   and leaves it empty.  Objects 1 and 3 each allocate two objects in their destructor; at
+   teardown the sweep meets 3 first: object 1 is never finalised. *)
+Definition d22_history : list ev :=
+  [ENew KManaged false 1 [] []; ESpawn 1 [10; 11]; ENew KManaged false 3 [] [1]; ESpawn 3 [12; 13]; ETeardown [3; 1]].
+
+Theorem lifecycle_d22_refuted_pinned :
+  let s := run true true false d22_history in
+  no_alloc_or_del_in_stop_window true true false d22_history = true /\ bad s = false /\ torn s = true /\
+  info s 1 = Some (KManaged, false) /\ fin_count s 1 = 0 /\ free_count s 1 = 0.
+Proof. vm_compute. repeat split; reflexivity. Qed.
+
+Example d22_history_repaired :
+  let s := runF d22_history in bad s = false /\ fin_count s 1 = 1 /\ fin_count s 3 = 1 /\ free_count s 1 = 1.
 Proof. vm_compute. repeat split; reflexivity. Qed.
 
 (* F2 (open finding): an object allocated in a stop window is never registered; del is a no-op
@@ -1471,7 +1591,7 @@ Definition stop_window_history : list ev :=
 
 Theorem lifecycle_stop_window_refuted :
   let s := runF stop_window_history in
-  no_alloc_in_stop_window true true stop_window_history = false /\ bad s = false /\ torn s = true /\
+  no_alloc_in_stop_window true true true stop_window_history = false /\ bad s = false /\ torn s = true /\
   info s 1 = Some (KManaged, false) /\ fin_count s 1 = 0.
 Proof. vm_compute. repeat split; reflexivity. Qed.
 
@@ -1487,8 +1607,8 @@ Definition sample_history : list ev :=
 
 Example sample_history_ok :
   let s := runF sample_history in
-  no_alloc_or_del_in_stop_window true true sample_history = true /\
-  no_alloc_in_stop_window true true sample_history = true /\
+  no_alloc_or_del_in_stop_window true true true sample_history = true /\
+  no_alloc_in_stop_window true true true sample_history = true /\
   torn s = false /\ bad s = false /\ running s = true /\
   live s 1 = true /\ kind_of s 1 = Some KManaged /\ info s 6 = Some (KManaged, false) /\
   live s 3 = true /\ kind_of s 3 = Some KRoot /\ fin_count s 7 = 1 /\ fin_count s 8 = 1.
@@ -1498,26 +1618,26 @@ Proof. vm_compute. repeat split; reflexivity. Qed.
    (Properties_C06.v instantiates them with the values read off the C text; stated this way a
    reverted repair fails at once on `false = true` instead of sending the kernel into a long
    conversion) *)
-Lemma finalised_at_most_once_sw r w : r = true -> w = true -> forall h x,
-  fin_count (run r w h) x <= 1 /\ free_count (run r w h) x = fin_count (run r w h) x.
-Proof. intros -> ->. exact finalised_at_most_once. Qed.
+Lemma finalised_at_most_once_sw r w d : r = true -> w = true -> d = true -> forall h x,
+  fin_count (run r w d h) x <= 1 /\ free_count (run r w d h) x = fin_count (run r w d h) x.
+Proof. intros -> -> ->. exact finalised_at_most_once. Qed.
 
-Lemma fuel_adequate_sw r w : r = true -> w = true -> forall h,
-  oof (run r w h) = false /\ pend (run r w h) = [].
-Proof. intros -> ->. exact fuel_adequate. Qed.
+Lemma fuel_adequate_sw r w d : r = true -> w = true -> d = true -> forall h,
+  oof (run r w d h) = false /\ pend (run r w d h) = [].
+Proof. intros -> -> ->. exact fuel_adequate. Qed.
 
-Lemma explicit_delete_finalises_sw r w : r = true -> w = true -> forall h k o,
-  no_alloc_in_stop_window r w h = true ->
-  torn (run r w h) = false -> live (run r w h) o = true -> kind_of (run r w h) o = Some k ->
-  (k = KRaw \/ running (run r w h) = true) ->
-  fin_count (run r w (h ++ [EDel k o])) o = 1 /\ free_count (run r w (h ++ [EDel k o])) o = 1.
-Proof. intros -> ->. exact explicit_delete_finalises. Qed.
+Lemma explicit_delete_finalises_sw r w d : r = true -> w = true -> d = true -> forall h k o,
+  no_alloc_in_stop_window r w d h = true ->
+  torn (run r w d h) = false -> live (run r w d h) o = true -> kind_of (run r w d h) o = Some k ->
+  (k = KRaw \/ running (run r w d h) = true) ->
+  fin_count (run r w d (h ++ [EDel k o])) o = 1 /\ free_count (run r w d (h ++ [EDel k o])) o = 1.
+Proof. intros -> -> ->. exact explicit_delete_finalises. Qed.
 
-Lemma teardown_complete_sw r w : r = true -> w = true -> forall h order x b,
-  no_alloc_in_stop_window r w h = true ->
-  torn (run r w h) = false -> info (run r w h) x = Some (KManaged, b) ->
-  fin_count (run r w (h ++ [ETeardown order])) x = 1 /\ free_count (run r w (h ++ [ETeardown order])) x = 1.
-Proof. intros -> ->. exact teardown_complete. Qed.
+Lemma teardown_complete_sw r w d : r = true -> w = true -> d = true -> forall h order x b,
+  no_alloc_in_stop_window r w d h = true ->
+  torn (run r w d h) = false -> info (run r w d h) x = Some (KManaged, b) ->
+  fin_count (run r w d (h ++ [ETeardown order])) x = 1 /\ free_count (run r w d (h ++ [ETeardown order])) x = 1.
+Proof. intros -> -> ->. exact teardown_complete. Qed.
 
 (* ------------------------------------------------------------------ through an owning Box *)
 (* the chain of ownership that starts at o, through registered objects *)
@@ -1539,7 +1659,7 @@ Qed.
    del_root / del_raw of o finalises, exactly once and at once, every object reachable from o
    through ownership of registered objects *)
 Theorem delete_reaches_owned h k o x :
-  no_alloc_in_stop_window true true h = true ->
+  no_alloc_in_stop_window true true true h = true ->
   torn (runF h) = false -> live (runF h) o = true -> kind_of (runF h) o = Some k ->
   running (runF h) = true -> Reach (runF h) o x ->
   done (runF (h ++ [EDel k o])) x.
@@ -1551,31 +1671,31 @@ Proof.
   set (s := runF h) in *.
   pose proof (si_g _ S) as G. pose proof (si_pend _ S) as Hpe.
   destruct (live_spec _ _ Hlive) as [Hf0 Hinf].
-  assert (Hstep : forall z, done (step1 true true s (EDel k o)) z -> done (stepF s (EDel k o)) z).
+  assert (Hstep : forall z, done (step1F s (EDel k o)) z -> done (stepF s (EDel k o)) z).
   { intros z. apply done_step_of_step1. exact Ht. }
-  assert (Hdo1 : done (step1 true true s (EDel k o)) o).
-  { unfold step in Hdo. rewrite Ht in Hdo. destruct (dangling (step1 true true s (EDel k o))); exact Hdo. }
+  assert (Hdo1 : done (step1F s (EDel k o)) o).
+  { unfold step in Hdo. rewrite Ht in Hdo. destruct (dangling (step1F s (EDel k o))); exact Hdo. }
   apply Hstep.
-  assert (C : Clo s (step1 true true s (EDel k o))).
+  assert (C : Clo s (step1F s (EDel k o))).
   { cbn [step1]. rewrite Hlive, Hk. simpl andb.
     assert (Hkk : kind_eqb k k = true) by (destruct k; reflexivity). rewrite Hkk.
     destruct k.
-    - destruct (gc_rem_ok _ _ (finalise_ok (fuel_of s)) [] s o G ltac:(unfold fuel_of, measure; lia)) as (_ & _ & _ & C). exact C.
-    - destruct (gc_rem_ok _ _ (finalise_ok (fuel_of s)) [] s o G ltac:(unfold fuel_of, measure; lia)) as (_ & _ & _ & C). exact C.
+    - destruct (gc_rem_ok finT (1 + measure s) (fin_top_ok _) [] s o G ltac:(lia)) as (_ & _ & _ & C & _). exact C.
+    - destruct (gc_rem_ok finT (1 + measure s) (fin_top_ok _) [] s o G ltac:(lia)) as (_ & _ & _ & C & _). exact C.
     - assert (Hno : ~ In o (regids s)).
       { intros Hin. unfold regids in Hin. apply in_map_iff in Hin. destruct Hin as [[y r] [Hy Hin]]. simpl in Hy. subst y.
         destruct (si_reginfo _ S o r Hin) as [b' Hb']. unfold kind_of in Hk. rewrite Hb' in Hk. simpl in Hk. destruct r; discriminate. }
       assert (Hnp : ~ In o (pids s)) by (unfold pids; rewrite Hpe; intros []).
-      destruct (finalise_ok (fuel_of s) [] s o G Hno Hnp Hf0 Hinf ltac:(unfold fuel_of, measure; lia)) as (_ & _ & _ & C). exact C. }
+      destruct (fin_top_ok (1 + measure s) [] s o G Hno Hnp Hf0 Hinf ltac:(lia)) as (_ & _ & _ & C & _). exact C. }
   exact (clo_reach s _ G C Hrun o x HR Hf0 Hdo1).
 Qed.
 
-Lemma delete_reaches_owned_sw r w : r = true -> w = true -> forall h k o x,
-  no_alloc_in_stop_window r w h = true ->
-  torn (run r w h) = false -> live (run r w h) o = true -> kind_of (run r w h) o = Some k ->
-  running (run r w h) = true -> Reach (run r w h) o x ->
-  fin_count (run r w (h ++ [EDel k o])) x = 1 /\ free_count (run r w (h ++ [EDel k o])) x = 1.
-Proof. intros -> ->. exact delete_reaches_owned. Qed.
+Lemma delete_reaches_owned_sw r w d : r = true -> w = true -> d = true -> forall h k o x,
+  no_alloc_in_stop_window r w d h = true ->
+  torn (run r w d h) = false -> live (run r w d h) o = true -> kind_of (run r w d h) o = Some k ->
+  running (run r w d h) = true -> Reach (run r w d h) o x ->
+  fin_count (run r w d (h ++ [EDel k o])) x = 1 /\ free_count (run r w d (h ++ [EDel k o])) x = 1.
+Proof. intros -> -> ->. exact delete_reaches_owned. Qed.
 
 (* non-vacuity: in sample_history the Box 1 owns object 2, both registered *)
 Example sample_reach : Reach (runF sample_history) 1 2 /\ Reach (runF sample_history) 3 4.
@@ -1598,24 +1718,25 @@ Proof.
   pose proof (run_inv h) as S. set (s := runF h) in *.
   pose proof (si_g _ S) as G. pose proof (si_pend _ S) as Hpe.
   apply done_step_of_step1; [exact Ht|]. cbn [step1].
-  destruct (sweep_ok order marks s G Hpe) as (_ & _ & _ & Hdead & C).
+  destruct (sweep_ok finT (1 + measure s) (fin_top_ok _) order marks [] s G Hpe ltac:(lia)) as (_ & _ & _ & Hdead & C & _).
   apply (clo_reach s _ G C Hrun b x HR).
   - apply (g_fresh _ _ G). left. exact Hin.
   - apply Hdead; assumption.
 Qed.
 
-Lemma collect_reaches_owned_sw r w : r = true -> w = true -> forall h order marks b x,
-  torn (run r w h) = false -> running (run r w h) = true ->
-  In b (map fst (reg (run r w h))) -> is_root (run r w h) b = false -> ~ In b marks ->
-  Reach (run r w h) b x ->
-  fin_count (run r w (h ++ [ECollect order marks])) x = 1 /\ free_count (run r w (h ++ [ECollect order marks])) x = 1.
-Proof. intros -> ->. exact collect_reaches_owned. Qed.
+Lemma collect_reaches_owned_sw r w d : r = true -> w = true -> d = true -> forall h order marks b x,
+  torn (run r w d h) = false -> running (run r w d h) = true ->
+  In b (map fst (reg (run r w d h))) -> is_root (run r w d h) b = false -> ~ In b marks ->
+  Reach (run r w d h) b x ->
+  fin_count (run r w d (h ++ [ECollect order marks])) x = 1 /\ free_count (run r w d (h ++ [ECollect order marks])) x = 1.
+Proof. intros -> -> ->. exact collect_reaches_owned. Qed.
 
 (* ------------------------------------------------------------------ the machine refines the specification *)
+(* the specification knows the objects the program allocates; the machine may know more (those
+   allocated by destructors) *)
 Record Sim (p : sp) (s : st) : Prop := {
-  sm_info : forall x, s_info p x = info s x;
-  sm_ids : s_ids p = ids s;
-  sm_owned : forall x, fin_count s x = 0 -> s_owned p x = owned s x;
+  sm_info : forall x, s_info p x <> None -> info s x = s_info p x;
+  sm_owned : forall x, s_info p x <> None -> fin_count s x = 0 -> s_owned p x = owned s x;
   sm_must : forall x, In x (s_must p) -> done s x;
   sm_torn : s_torn p = torn s
 }.
@@ -1629,13 +1750,8 @@ Proof. unfold s_in. apply existsb_eqb_in. Qed.
 Lemma done_fin1 s x : done s x -> fin_count s x = 1.
 Proof. intros [H _]; exact H. Qed.
 
-(* a model-live object is alive for the specification *)
-Lemma sim_live p s x : Sim p s -> live s x = true -> s_live p x = true.
-Proof.
-  intros M Hl. destruct (live_spec _ _ Hl) as [Hf Hi]. unfold s_live. rewrite (sm_info _ _ M).
-  destruct (info s x); [|congruence]. apply negb_true_iff. apply not_true_is_false. intros Hin.
-  apply s_in_spec in Hin. pose proof (done_fin1 _ _ (sm_must _ _ M x Hin)). lia.
-Qed.
+Lemma s_live_info p x : s_live p x = true -> s_info p x <> None.
+Proof. unfold s_live. destruct (s_info p x); [discriminate | discriminate]. Qed.
 
 Lemma live_of_fin0 s x : info s x <> None -> fin_count s x = 0 -> live s x = true.
 Proof.
@@ -1663,15 +1779,15 @@ Proof.
   destruct (s_in acc o || negb (s_live p o)) eqn:Hstop; [left; exact Hx|].
   apply orb_false_iff in Hstop. destruct Hstop as [_ Hal]. apply negb_false_iff in Hal.
   pose proof (Ho Hal) as Hfo.
-  rewrite (sm_owned _ _ M o Hfo) in Hx.
+  pose proof (s_live_info _ _ Hal) as Hso.
+  rewrite (sm_owned _ _ M o Hso Hfo) in Hx.
   destruct (owned s o) as [q|] eqn:Hown.
   2:{ destruct Hx as [<-|Hx]; [right; apply reach_refl | left; exact Hx]. }
   destruct (s_live p q) eqn:Hlq.
   - (* q alive for the specification: it is model-live (else o would dangle), hence registered *)
     assert (Hiq : info s q <> None).
     { destruct (si_own _ S o q Hfo Hown) as (k1 & bb & Hi & _). congruence. }
-    assert (Hio : info s o <> None).
-    { unfold s_live in Hal. rewrite (sm_info _ _ M) in Hal. destruct (info s o); [discriminate | discriminate]. }
+    assert (Hio : info s o <> None) by (rewrite (sm_info _ _ M o Hso); exact Hso).
     assert (Hfq : fin_count s q = 0).
     { destruct (Nat.eq_dec (fin_count s q) 0) as [Hz|Hnz]; [exact Hz|]. exfalso.
       destruct (g_rest _ _ (si_g _ S) q (fun f => f)) as [Ha Hb].
@@ -1695,69 +1811,95 @@ Qed.
 Lemma del_ext s k o :
   SInv s -> live s o = true -> kind_of s o = Some k ->
   let s' := match k with
-            | KRaw => finalise true (fuel_of s) s o
-            | _ => gc_rem true (finalise true (fuel_of s)) s o
+            | KRaw => finT s o
+            | _ => gc_rem true finT s o
             end in
   GInv [] s' /\ Ext s s'.
 Proof.
   intros S Hlive Hk. pose proof (si_g _ S) as G. pose proof (si_pend _ S) as Hpe.
   destruct (live_spec _ _ Hlive) as [Hf0 Hinf].
   destruct k.
-  - destruct (gc_rem_ok _ _ (finalise_ok (fuel_of s)) [] s o G ltac:(unfold fuel_of, measure; lia)) as (G' & E' & _). split; assumption.
-  - destruct (gc_rem_ok _ _ (finalise_ok (fuel_of s)) [] s o G ltac:(unfold fuel_of, measure; lia)) as (G' & E' & _). split; assumption.
+  - destruct (gc_rem_ok finT (1 + measure s) (fin_top_ok _) [] s o G ltac:(lia)) as (G' & E' & _). split; assumption.
+  - destruct (gc_rem_ok finT (1 + measure s) (fin_top_ok _) [] s o G ltac:(lia)) as (G' & E' & _). split; assumption.
   - assert (Hno : ~ In o (regids s)).
     { intros Hin. unfold regids in Hin. apply in_map_iff in Hin. destruct Hin as [[y r] [Hy Hin]]. simpl in Hy. subst y.
       destruct (si_reginfo _ S o r Hin) as [b' Hb']. unfold kind_of in Hk. rewrite Hb' in Hk. simpl in Hk. destruct r; discriminate. }
     assert (Hnp : ~ In o (pids s)) by (unfold pids; rewrite Hpe; intros []).
-    destruct (finalise_ok (fuel_of s) [] s o G Hno Hnp Hf0 Hinf ltac:(unfold fuel_of, measure; lia)) as (G' & E' & _). split; assumption.
+    destruct (fin_top_ok (1 + measure s) [] s o G Hno Hnp Hf0 Hinf ltac:(lia)) as (G' & E' & _). split; assumption.
 Qed.
 
 (* the flag `bad` is never taken back (structural: no invariant needed) *)
-Lemma bad_gc_rem r fin s p : (forall s o, bad (fin s o) = bad s) -> bad (gc_rem r fin s p) = bad s.
+Definition BM (fin : st -> id -> st) : Prop := forall s o, bad s = true -> bad (fin s o) = true.
+
+Lemma bad_gc_rem r fin s p : BM fin -> bad s = true -> bad (gc_rem r fin s p) = true.
 Proof.
-  intros Hf. unfold gc_rem. destruct (negb (running s)); [reflexivity|].
+  intros Hf Hb. unfold gc_rem. destruct (negb (running s)); [exact Hb|].
   destruct (in_pend s p).
-  - destruct r; cbn [bad set_mitems]; [rewrite Hf; reflexivity|].
-    match goal with |- context [if ?c then _ else _] => destruct c end; [rewrite Hf|]; reflexivity.
-  - destruct (in_reg s p); cbn [bad set_mitems]; [rewrite Hf|]; reflexivity.
+  - destruct r; cbn [bad set_mitems]; [apply Hf; exact Hb|].
+    match goal with |- context [if ?c then _ else _] => destruct c end; [apply Hf|]; exact Hb.
+  - destruct (in_reg s p); cbn [bad set_mitems]; [apply Hf|]; exact Hb.
 Qed.
 
-Lemma bad_finalise r f : forall s o, bad (finalise r f s o) = bad s.
+Lemma bad_sweep_loop w fin k : BM fin -> forall i s, bad s = true -> bad (sweep_loop w fin k i s) = true.
 Proof.
-  induction f as [|f IH]; intros s o; cbn [finalise]; [reflexivity|].
-  cbn [bad add_log]. destruct (owned (add_log (LFin o) s) o); [|reflexivity].
-  cbn [bad set_owned]. rewrite (bad_gc_rem r _ _ _ IH). reflexivity.
+  intros Hf. induction k as [|k IH]; intros i s Hb; cbn [sweep_loop]; [exact Hb|].
+  apply IH. destruct (nth i (pend s) None); [|exact Hb].
+  apply Hf. destruct w; exact Hb.
 Qed.
 
-Lemma bad_sweep_loop r w k : forall i s, bad (sweep_loop r w k i s) = bad s.
+Lemma bad_sweep w fin order marks s : BM fin -> bad s = true -> bad (sweep w fin order marks s) = true.
+Proof. intros Hf Hb. unfold sweep. cbn [bad set_pend]. apply bad_sweep_loop; [exact Hf | exact Hb]. Qed.
+
+Lemma bad_alloc_child w d fin s c : BM fin -> bad s = true -> bad (alloc_child w d fin s c) = true.
 Proof.
-  induction k as [|k IH]; intros i s; cbn [sweep_loop]; [reflexivity|].
-  rewrite IH. destruct (nth i (pend s) None); [|reflexivity].
-  rewrite bad_finalise. destruct w; reflexivity.
+  intros Hf Hb. unfold alloc_child. destruct (info s c); [reflexivity|].
+  match goal with |- context [if ?c then _ else _] => destruct c end; [exact Hb|].
+  match goal with |- context [if ?c then _ else _] => destruct c end; [exact Hb|].
+  match goal with |- context [if ?c then _ else _] => destruct c end; [|exact Hb].
+  apply bad_sweep; [exact Hf | exact Hb].
 Qed.
 
-Lemma bad_sweep r w order marks s : bad (sweep r w order marks s) = bad s.
-Proof. unfold sweep. cbn [bad set_pend]. rewrite bad_sweep_loop. reflexivity. Qed.
+Lemma bad_children w d fin cs : BM fin -> forall s, bad s = true -> bad (fold_left (alloc_child w d fin) cs s) = true.
+Proof.
+  intros Hf. induction cs as [|c cs IH]; intros s Hb; simpl; [exact Hb|].
+  apply IH. apply bad_alloc_child; assumption.
+Qed.
+
+Lemma bad_finalise r w d f : BM (finalise r w d f).
+Proof.
+  induction f as [|f IH]; intros s o Hb; cbn [finalise]; [exact Hb|].
+  cbn [bad add_log].
+  assert (H1 : bad (fold_left (alloc_child w d (finalise r w d f)) (spawns (add_log (LFin o) s) o) (add_log (LFin o) s)) = true)
+    by (apply bad_children; [exact IH | exact Hb]).
+  match goal with |- bad (match ?x with Some _ => _ | None => _ end) = true => destruct x end; [|exact H1].
+  cbn [bad set_owned]. apply bad_gc_rem; [exact IH | exact H1].
+Qed.
+
+Lemma bad_fin_top r w d : BM (fin_top r w d).
+Proof. intros s o Hb. unfold fin_top. apply bad_finalise. exact Hb. Qed.
 
 Lemma step_bad_mono s e : bad s = true -> bad (stepF s e) = true.
 Proof.
   intros Hb. unfold step. destruct (torn s); [reflexivity|].
-  destruct (dangling (step1 true true s e)); [reflexivity|].
-  destruct e as [k isbox o order marks | b [o|] | k o | order marks | | | order]; cbn [step1].
+  destruct (dangling (step1F s e)); [reflexivity|].
+  pose proof (bad_fin_top true true true) as HT.
+  destruct e as [k isbox o order marks | b [o|] | k o | order marks | | | order | o cs | q]; cbn [step1].
   - destruct (info s o); [reflexivity|].
     destruct k; try exact Hb.
     + match goal with |- context [if ?c then _ else _] => destruct c end; [exact Hb|].
-      match goal with |- context [if ?c then _ else _] => destruct c end; [rewrite bad_sweep|]; exact Hb.
+      match goal with |- context [if ?c then _ else _] => destruct c end; [apply bad_sweep; [exact HT|]|]; exact Hb.
     + match goal with |- context [if ?c then _ else _] => destruct c end; [exact Hb|].
-      match goal with |- context [if ?c then _ else _] => destruct c end; [rewrite bad_sweep|]; exact Hb.
+      match goal with |- context [if ?c then _ else _] => destruct c end; [apply bad_sweep; [exact HT|]|]; exact Hb.
   - match goal with |- context [if ?c then _ else _] => destruct c end; [exact Hb | reflexivity].
   - match goal with |- context [if ?c then _ else _] => destruct c end; [exact Hb | reflexivity].
   - match goal with |- context [if ?c then _ else _] => destruct c end; [|reflexivity].
-    destruct k; [rewrite bad_gc_rem | rewrite bad_gc_rem | rewrite bad_finalise]; try exact Hb; apply bad_finalise.
-  - rewrite bad_sweep. exact Hb.
+    destruct k; [apply bad_gc_rem | apply bad_gc_rem | apply HT]; try exact HT; exact Hb.
+  - apply bad_sweep; [exact HT | exact Hb].
   - exact Hb.
   - exact Hb.
-  - cbn [bad set_torn set_reg]. rewrite bad_sweep. exact Hb.
+  - cbn [bad set_torn set_reg]. apply bad_sweep; [exact HT | exact Hb].
+  - destruct (live s o); [exact Hb | reflexivity].
+  - exact Hb.
 Qed.
 
 Lemma run_bad_prefix h e : bad (runF (h ++ [e])) = false -> bad (runF h) = false.
@@ -1768,49 +1910,18 @@ Qed.
 
 Lemma step_good s e :
   bad (stepF s e) = false ->
-  torn s = false /\ stepF s e = step1 true true s e /\ dangling (step1 true true s e) = false.
+  torn s = false /\ stepF s e = step1F s e /\ dangling (step1F s e) = false.
 Proof.
   unfold step. destruct (torn s); [discriminate|].
-  destruct (dangling (step1 true true s e)); [discriminate|]. auto.
-Qed.
-
-Lemma add_obj_ok s o k b : SInv s -> info s o = None -> SInv (add_obj o k b s).
-Proof.
-  intros S Hinfo. pose proof (si_g _ S) as G.
-  set (s1 := add_obj o k b s).
-  assert (Hfo : fin_count s o = 0) by (apply (si_fin_alloc _ S); exact Hinfo).
-  assert (Hno : ~ In o (regids s)).
-  { intros Hin. apply (g_info _ _ G o (or_introl Hin)). exact Hinfo. }
-  assert (Hinfo1 : forall x, x <> o -> info s1 x = info s x).
-  { intros x Hne. unfold s1. simpl. destruct (Nat.eqb_spec x o); [contradiction | reflexivity]. }
-  assert (Hinfo1o : info s1 o = Some (k, b)) by (unfold s1; simpl; rewrite Nat.eqb_refl; reflexivity).
-  constructor; try apply S.
-  - constructor; try apply G. intros x Hx. destruct (Nat.eq_dec x o) as [->|Hne].
-    + rewrite Hinfo1o. discriminate.
-    + rewrite (Hinfo1 x Hne). apply (g_info _ _ G). exact Hx.
-  - intros x r Hx. destruct (Nat.eq_dec x o) as [->|Hne].
-    + exfalso. apply Hno. unfold regids. apply in_map_iff. exists (o, r). auto.
-    + rewrite (Hinfo1 x Hne). apply (si_reginfo _ S). exact Hx.
-  - intros x Hx. destruct (Nat.eq_dec x o) as [->|Hne]; [exact Hfo|].
-    rewrite (Hinfo1 x Hne) in Hx. apply (si_fin_alloc _ S). exact Hx.
-  - intros x. destruct (Nat.eq_dec x o) as [->|Hne].
-    + rewrite Hinfo1o. split; [discriminate | intros _; left; reflexivity].
-    + rewrite (Hinfo1 x Hne). unfold s1. simpl ids. split.
-      * intros [Hx|Hx]; [congruence | apply (si_ids _ S); exact Hx].
-      * intros Hx. right. apply (si_ids _ S). exact Hx.
-  - intros b' p Hfb Hown. destruct (si_own _ S b' p Hfb Hown) as (k1 & bb & Hi & Hk1).
-    destruct (Nat.eq_dec p o) as [->|Hne]; [congruence|].
-    exists k1, bb. rewrite (Hinfo1 p Hne). auto.
-  - intros b' Hb. destruct (Nat.eq_dec b' o) as [->|Hne]; [rewrite Hinfo1o in Hb; discriminate|].
-    rewrite (Hinfo1 b' Hne) in Hb. apply (si_own_none _ S). exact Hb.
+  destruct (dangling (step1F s e)); [discriminate|]. auto.
 Qed.
 
 (* what an allocation event leaves of the old state *)
 Lemma new_facts s k isbox o order marks :
   SInv s -> info s o = None ->
   let s1 := add_obj o k isbox s in
-  let s' := step1 true true s (ENew k isbox o order marks) in
-  info s' = info s1 /\ ids s' = ids s1 /\ torn s' = torn s /\
+  let s' := step1F s (ENew k isbox o order marks) in
+  (forall x, info s1 x <> None -> info s' x = info s1 x) /\ torn s' = torn s /\
   (forall y, fin_count s' y = 0 -> owned s' y = owned s y) /\ (forall x, done s x -> done s' x).
 Proof.
   intros S Hinfo s1 s'. unfold s'. cbn [step1]. rewrite Hinfo. fold s1.
@@ -1819,24 +1930,24 @@ Proof.
   assert (Hno : ~ In o (regids s)).
   { intros Hin. apply (g_info _ _ (si_g _ S) o (or_introl Hin)). exact Hinfo. }
   assert (Hio : info s1 o = Some (k, isbox)) by (unfold s1; simpl; rewrite Nat.eqb_refl; reflexivity).
-  assert (Triv : forall t, info t = info s1 -> ids t = ids s1 -> torn t = torn s -> owned t = owned s -> log t = log s ->
-            info t = info s1 /\ ids t = ids s1 /\ torn t = torn s /\
+  assert (Triv : forall t, info t = info s1 -> torn t = torn s -> owned t = owned s -> log t = log s ->
+            (forall x, info s1 x <> None -> info t x = info s1 x) /\ torn t = torn s /\
             (forall y, fin_count t y = 0 -> owned t y = owned s y) /\ (forall x, done s x -> done t x)).
-  { intros t H1 H2 H3 H4 H5. repeat split; auto.
+  { intros t H1 H3 H4 H5. repeat split; auto.
+    - intros x _. rewrite H1. reflexivity.
     - intros y _. rewrite H4. reflexivity.
     - destruct H as [Ha _]. unfold fin_count in *. rewrite H5. exact Ha.
     - destruct H as [_ Hb]. unfold free_count in *. rewrite H5. exact Hb. }
   assert (Sweep : forall r : bool, (exists bb, info s1 o = Some ((if r then KRoot else KManaged), bb)) ->
      let s2 := set_reg ((o, r) :: reg s1) s1 in
-     let t := sweep true true order (o :: marks) s2 in
-     info t = info s1 /\ ids t = ids s1 /\ torn t = torn s /\
+     let t := sweepT order (o :: marks) s2 in
+     (forall x, info s1 x <> None -> info t x = info s1 x) /\ torn t = torn s /\
      (forall y, fin_count t y = 0 -> owned t y = owned s y) /\ (forall x, done s x -> done t x)).
   { intros r Hr s2 t.
     assert (S2 : SInv s2) by (apply register_ok; [exact S1 | exact Hno | exact Hfo | exact Hr]).
-    destruct (sweep_ok order (o :: marks) s2 (si_g _ S2) (si_pend _ S2)) as (_ & _ & E & _).
+    destruct (sweep_ok finT (1 + measure s2) (fin_top_ok _) order (o :: marks) [] s2 (si_g _ S2) (si_pend _ S2) ltac:(lia)) as (_ & _ & E & _).
     fold t in E. repeat split.
-    - rewrite (e_info _ _ E). reflexivity.
-    - rewrite (e_ids _ _ E). reflexivity.
+    - intros x Hx. apply (e_info _ _ E x Hx).
     - rewrite (e_torn _ _ E). reflexivity.
     - intros y Hy. rewrite (e_owned _ _ E y Hy). reflexivity.
     - apply (e_done _ _ E). exact H.
@@ -1853,87 +1964,115 @@ Proof.
   - apply Triv; reflexivity.
 Qed.
 
+Lemma sp_bad_mono p e : s_bad p = true -> s_bad (sp_step p e) = true.
+Proof.
+  intros Hb. unfold sp_step. destruct (s_torn p); [reflexivity|].
+  destruct e as [k isbox o order marks | b [o|] | k o | order marks | | | order | o cs | q]; cbn [s_bad]; try exact Hb.
+  - destruct (s_info p o); [reflexivity | exact Hb].
+  - match goal with |- context [if ?c then _ else _] => destruct c end; [exact Hb | reflexivity].
+  - match goal with |- context [if ?c then _ else _] => destruct c end; [exact Hb | reflexivity].
+  - match goal with |- context [if ?c then _ else _] => destruct c end; [exact Hb | reflexivity].
+Qed.
+
 Lemma dangling_init : dangling init = false.
 Proof. reflexivity. Qed.
 
 Lemma Sim_init : Sim sp_init init.
 Proof. constructor; try reflexivity. intros x []. Qed.
 
-(* T7: the machine refines the specification (the oracle of the check): along every history that
-   does not misuse the interface and keeps its stop windows clean, every object the specification
-   demands to be finalised by now has been finalised exactly once in the machine *)
+(* the specification never gives a pointer to an identity it has not allocated *)
+Lemma sp_owned_unalloc h o : s_info (sp_run h) o = None -> s_owned (sp_run h) o <> None -> False.
+Proof.
+  induction h as [|e h IH] using rev_ind; [intros _ H; apply H; reflexivity|].
+  rewrite sp_run_snoc. set (p := sp_run h) in *. unfold sp_step.
+  destruct (s_torn p); [exact IH|].
+  destruct e as [k isbox o' order marks | b [o'|] | k o' | order marks | | | order | o' cs | q]; cbn [s_info s_owned]; try exact IH.
+  - destruct (s_info p o') eqn:Hi; [exact IH|]. cbn [s_info s_owned].
+    destruct (Nat.eqb_spec o o') as [->|Hne]; [discriminate | exact IH].
+  - match goal with |- context [if ?c then _ else _] => destruct c eqn:Hc end; [|exact IH].
+    cbn [s_info s_owned]. unfold upd_owned. destruct (Nat.eqb_spec o b) as [->|Hne]; [|exact IH].
+    intros Hn _. apply andb_true_iff in Hc. destruct Hc as [Hc _]. apply andb_true_iff in Hc. destruct Hc as [Hc _].
+    apply andb_true_iff in Hc. destruct Hc as [Hc _]. apply s_live_info in Hc. contradiction.
+  - match goal with |- context [if ?c then _ else _] => destruct c eqn:Hc end; [|exact IH].
+    cbn [s_info s_owned]. unfold upd_owned. destruct (Nat.eqb_spec o b) as [->|Hne]; [|exact IH].
+    intros _ H. apply H. reflexivity.
+  - match goal with |- context [if ?c then _ else _] => destruct c end; exact IH.
+Qed.
+
+(* T7: the machine refines the specification (the oracle of the check): along every history in which
+   neither the machine nor the specification flags a misuse and whose stop windows are clean, every
+   object the specification demands to be finalised by now has been finalised exactly once *)
 Theorem refines_spec_sim h :
-  bad (runF h) = false -> no_alloc_or_del_in_stop_window true true h = true ->
+  bad (runF h) = false -> s_bad (sp_run h) = false -> no_alloc_or_del_in_stop_window true true true h = true ->
   Sim (sp_run h) (runF h) /\ dangling (runF h) = false.
 Proof.
-  induction h as [|e h IH] using rev_ind; intros Hbad Hclean.
+  induction h as [|e h IH] using rev_ind; intros Hbad Hsb Hclean.
   - split; [apply Sim_init | apply dangling_init].
   - pose proof (run_bad_prefix h e Hbad) as Hbad0.
+    assert (Hsb0 : s_bad (sp_run h) = false).
+    { rewrite sp_run_snoc in Hsb. destruct (s_bad (sp_run h)) eqn:E; [|reflexivity].
+      rewrite (sp_bad_mono _ e E) in Hsb. discriminate. }
     unfold no_alloc_or_del_in_stop_window in Hclean. rewrite all_from_snoc in Hclean.
     apply andb_true_iff in Hclean. destruct Hclean as [Hc0 Hce].
-    destruct (IH Hbad0 Hc0) as [M Hdg].
+    destruct (IH Hbad0 Hsb0 Hc0) as [M Hdg].
     pose proof (stop_clean_alloc_clean h Hc0) as Hca.
     pose proof (run_inv h) as S. pose proof (run_regall h Hca) as R.
-    pose proof (run_inv (h ++ [e])) as S'.
     assert (Hrs : runF (h ++ [e]) = stepF (runF h) e) by apply run_snoc.
     fold (runF h) in Hce.
     set (s := runF h) in *. set (p := sp_run h) in *.
     set (s' := runF (h ++ [e])) in *.
-    rewrite sp_run_snoc. fold p.
+    rewrite sp_run_snoc in Hsb |- *. fold p in Hsb |- *.
     rewrite Hrs in Hbad. destruct (step_good s e Hbad) as (Ht & Heq & Hnd).
-    assert (Hs' : s' = step1 true true s e) by (rewrite Hrs; exact Heq).
-    assert (Hbad1 : bad (step1 true true s e) = false) by (rewrite <- Heq; exact Hbad).
+    assert (Hs' : s' = step1F s e) by (rewrite Hrs; exact Heq).
+    assert (Hbad1 : bad (step1F s e) = false) by (rewrite <- Heq; exact Hbad).
     split; [|rewrite Hs'; exact Hnd].
     pose proof (si_g _ S) as G. pose proof (si_pend _ S) as Hpe.
     assert (Hpt : s_torn p = false) by (rewrite (sm_torn _ _ M); exact Ht).
-    unfold sp_step. rewrite Hpt.
-    destruct e as [k isbox o order marks | b [o|] | k o | order marks | | | order].
+    unfold sp_step in Hsb |- *. rewrite Hpt in Hsb |- *.
+    destruct e as [k isbox o order marks | b [o|] | k o | order marks | | | order | o cs | q].
     + (* ENew *)
-      rewrite (sm_info _ _ M o).
+      destruct (s_info p o) as [ib|] eqn:Hsi; [discriminate|].
       destruct (info s o) as [[k0 b0]|] eqn:Hinfo.
       { exfalso. cbn [step1] in Hbad1. rewrite Hinfo in Hbad1. discriminate. }
-      destruct (new_facts s k isbox o order marks S Hinfo) as (Fi & Fd & Ft & Fo & Fdone).
-      rewrite <- Hs' in Fi, Fd, Ft, Fo, Fdone.
-      constructor; cbn [s_info s_ids s_owned s_must s_torn].
-      * intros x. rewrite Fi. simpl. rewrite (sm_info _ _ M x). reflexivity.
-      * rewrite Fd. simpl. rewrite (sm_ids _ _ M). reflexivity.
-      * intros x Hx. rewrite (Fo x Hx). apply (sm_owned _ _ M).
-        pose proof (finalised_at_most_once (h ++ [ENew k isbox o order marks]) x) as _.
-        destruct (Nat.eq_dec (fin_count s x) 0) as [Hz|Hnz]; [exact Hz|].
+      destruct (new_facts s k isbox o order marks S Hinfo) as (Fi & Ft & Fo & Fdone).
+      rewrite <- Hs' in Fi, Ft, Fo, Fdone.
+      assert (Hold : forall x, s_info p x <> None -> fin_count s' x = 0 -> fin_count s x = 0).
+      { intros x _ Hx. destruct (Nat.eq_dec (fin_count s x) 0) as [Hz|Hnz]; [exact Hz|].
         exfalso. destruct (g_rest _ _ G x (fun f => f)) as [Ha Hb].
-        assert (Hd : done s x) by (unfold done; lia). destruct (Fdone x Hd). lia.
+        assert (Hd : done s x) by (unfold done; lia). destruct (Fdone x Hd). lia. }
+      constructor; cbn [s_info s_owned s_must s_torn].
+      * intros x Hx.
+        assert (Hi1 : info (add_obj o k isbox s) x = (if x =? o then Some (k, isbox) else s_info p x)).
+        { simpl. revert Hx. destruct (Nat.eqb_spec x o) as [Hxo|Hne]; intros Hx; [reflexivity | apply (sm_info _ _ M); exact Hx]. }
+        rewrite Fi; [exact Hi1 | rewrite Hi1; exact Hx].
+      * intros x Hx Hf. rewrite (Fo x Hf). revert Hx.
+        destruct (Nat.eqb_spec x o) as [->|Hne]; intros Hx.
+        -- (* the newborn owns nothing on either side *)
+           rewrite (si_own_none _ S o Hinfo).
+           destruct (s_owned p o) eqn:Hso; [|reflexivity].
+           (* the specification never gave an unallocated identity a pointer *)
+           exfalso. apply (sp_owned_unalloc h o Hsi). fold p. rewrite Hso. discriminate.
+        -- simpl in Hx. destruct (Nat.eqb_spec x o); [contradiction|].
+           apply (sm_owned _ _ M x Hx). apply Hold; assumption.
       * intros x Hx. apply Fdone. apply (sm_must _ _ M). exact Hx.
       * rewrite Ft. symmetry; exact Ht.
     + (* ELink b (Some o) *)
       cbn [step1] in Hs', Hbad1.
       destruct (live s b && is_box s b && live s o && negb (match kind_of s o with Some KRaw => true | _ => false end)
                 && negb (has_owner s o b)) eqn:Hc; [|discriminate].
-      apply andb_true_iff in Hc. destruct Hc as [Hc _].
-      apply andb_true_iff in Hc. destruct Hc as [Hc Hraw].
-      apply andb_true_iff in Hc. destruct Hc as [Hc Hlo].
-      apply andb_true_iff in Hc. destruct Hc as [Hlb Hbox].
-      rewrite (sim_live _ _ _ M Hlb), (sim_live _ _ _ M Hlo).
-      assert (Hb1 : (match s_info p b with Some (_, true) => true | _ => false end) = true).
-      { rewrite (sm_info _ _ M). unfold is_box in Hbox. destruct (info s b) as [[? []]|]; auto. }
-      assert (Hb2 : negb (match s_info p o with Some (KRaw, _) => true | _ => false end) = true).
-      { rewrite (sm_info _ _ M). unfold kind_of in Hraw. destruct (info s o) as [[[] ?]|]; auto. }
-      rewrite Hb1, Hb2. simpl andb. cbv iota.
-      rewrite Hs'. constructor; cbn [s_info s_ids s_owned s_must s_torn info ids owned torn set_owned].
-      * apply (sm_info _ _ M). * apply (sm_ids _ _ M).
-      * intros x Hx. unfold upd_owned. destruct (x =? b); [reflexivity | apply (sm_owned _ _ M); exact Hx].
+      match type of Hsb with s_bad (if ?c then _ else _) = false => destruct c eqn:Hsc end; [|discriminate].
+      rewrite Hs'. constructor; cbn [s_info s_owned s_must s_torn info owned torn set_owned].
+      * apply (sm_info _ _ M).
+      * intros x Hx Hf. unfold upd_owned. destruct (x =? b); [reflexivity | apply (sm_owned _ _ M); assumption].
       * intros x Hx. apply (sm_must _ _ M). exact Hx.
       * symmetry; exact Ht.
     + (* ELink b None *)
       cbn [step1] in Hs', Hbad1.
       destruct (live s b && is_box s b) eqn:Hc; [|discriminate].
-      apply andb_true_iff in Hc. destruct Hc as [Hlb Hbox].
-      rewrite (sim_live _ _ _ M Hlb).
-      assert (Hb1 : (match s_info p b with Some (_, true) => true | _ => false end) = true).
-      { rewrite (sm_info _ _ M). unfold is_box in Hbox. destruct (info s b) as [[? []]|]; auto. }
-      rewrite Hb1. simpl andb. cbv iota.
-      rewrite Hs'. constructor; cbn [s_info s_ids s_owned s_must s_torn info ids owned torn set_owned].
-      * apply (sm_info _ _ M). * apply (sm_ids _ _ M).
-      * intros x Hx. unfold upd_owned. destruct (x =? b); [reflexivity | apply (sm_owned _ _ M); exact Hx].
+      match type of Hsb with s_bad (if ?c then _ else _) = false => destruct c eqn:Hsc end; [|discriminate].
+      rewrite Hs'. constructor; cbn [s_info s_owned s_must s_torn info owned torn set_owned].
+      * apply (sm_info _ _ M).
+      * intros x Hx Hf. unfold upd_owned. destruct (x =? b); [reflexivity | apply (sm_owned _ _ M); assumption].
       * intros x Hx. apply (sm_must _ _ M). exact Hx.
       * symmetry; exact Ht.
     + (* EDel *)
@@ -1942,42 +2081,36 @@ Proof.
       destruct (kind_of s o) as [k'|] eqn:Hk; [|discriminate].
       destruct (kind_eqb k k') eqn:Hkk; [|discriminate].
       assert (k = k') by (destruct k, k'; simpl in Hkk; congruence). subst k'.
-      rewrite (sim_live _ _ _ M Hlive).
-      assert (Hb1 : (match s_info p o with Some (k', _) => kind_eqb k k' | None => false end) = true).
-      { rewrite (sm_info _ _ M). unfold kind_of in Hk. destruct (info s o) as [[k1 ?]|]; [|discriminate].
-        simpl in Hk. inversion Hk; subst. exact Hkk. }
-      rewrite Hb1. simpl andb. cbv iota.
+      match type of Hsb with s_bad (if ?c then _ else _) = false => destruct c eqn:Hsc end; [|discriminate].
+      apply andb_true_iff in Hsc. destruct Hsc as [Hsl _].
       destruct (del_ext s k o S Hlive Hk) as (G' & E').
       assert (Hs'' : s' = match k with
-                          | KRaw => finalise true (fuel_of s) s o
-                          | _ => gc_rem true (finalise true (fuel_of s)) s o
+                          | KRaw => finT s o
+                          | _ => gc_rem true finT s o
                           end) by (rewrite Hs'; destruct k; reflexivity).
       rewrite <- Hs'' in E', G'.
       destruct (live_spec _ _ Hlive) as [Hf0 Hinf].
-      constructor; cbn [s_info s_ids s_owned s_must s_torn].
-      * intros x. rewrite (e_info _ _ E'). apply (sm_info _ _ M).
-      * rewrite (e_ids _ _ E'). apply (sm_ids _ _ M).
-      * intros x Hx. rewrite (e_owned _ _ E' x Hx). apply (sm_owned _ _ M).
+      constructor; cbn [s_info s_owned s_must s_torn].
+      * intros x Hx. rewrite (e_info _ _ E' x); [apply (sm_info _ _ M); exact Hx | rewrite (sm_info _ _ M x Hx); exact Hx].
+      * intros x Hx Hf. rewrite (e_owned _ _ E' x Hf). apply (sm_owned _ _ M x Hx).
         pose proof (e_fin _ _ E' x). lia.
       * intros x Hx.
         destruct (chain_reach p s M S R Ht Hdg _ _ o x (fun _ => Hf0) Hx) as [Hin|HR].
         -- apply (e_done _ _ E'). apply (sm_must _ _ M). exact Hin.
         -- destruct (running s) eqn:Hrun.
            ++ exact (delete_reaches_owned h k o x Hca Ht Hlive Hk Hrun HR).
-           ++ (* stopped: only del_raw of an object that owns nothing is allowed *)
-              unfold stop_ok in Hce. rewrite Hrun in Hce. simpl in Hce.
+           ++ unfold stop_ok in Hce. rewrite Hrun in Hce. simpl in Hce.
               destruct k; try discriminate.
               destruct (owned s o) eqn:Hown; [discriminate|].
               inversion HR; subst; [|congruence].
               exact (explicit_delete_finalises h KRaw x Hca Ht Hlive Hk (or_introl eq_refl)).
       * rewrite (e_torn _ _ E'). symmetry; exact Ht.
     + (* ECollect *)
-      destruct (sweep_ok order marks s G Hpe) as (_ & _ & E' & _).
+      destruct (sweep_ok finT (1 + measure s) (fin_top_ok _) order marks [] s G Hpe ltac:(lia)) as (_ & _ & E' & _).
       cbn [step1] in Hs'. rewrite <- Hs' in E'.
       constructor.
-      * intros x. rewrite (e_info _ _ E'). apply (sm_info _ _ M).
-      * rewrite (e_ids _ _ E'). apply (sm_ids _ _ M).
-      * intros x Hx. rewrite (e_owned _ _ E' x Hx). apply (sm_owned _ _ M).
+      * intros x Hx. rewrite (e_info _ _ E' x); [apply (sm_info _ _ M); exact Hx | rewrite (sm_info _ _ M x Hx); exact Hx].
+      * intros x Hx Hf. rewrite (e_owned _ _ E' x Hf). apply (sm_owned _ _ M x Hx).
         pose proof (e_fin _ _ E' x). lia.
       * intros x Hx. apply (e_done _ _ E'). apply (sm_must _ _ M). exact Hx.
       * rewrite (e_torn _ _ E'). apply (sm_torn _ _ M).
@@ -1986,32 +2119,37 @@ Proof.
     + (* EStart *)
       rewrite Hs'. constructor; apply M.
     + (* ETeardown *)
-      destruct (sweep_ok order [] s G Hpe) as (_ & _ & E' & _).
+      destruct (sweep_ok finT (1 + measure s) (fin_top_ok _) order [] [] s G Hpe ltac:(lia)) as (_ & _ & E' & _).
       cbn [step1] in Hs'.
-      constructor; cbn [s_info s_ids s_owned s_must s_torn]; rewrite Hs'; cbn [info ids owned torn set_torn set_reg].
-      * intros x. rewrite (e_info _ _ E'). apply (sm_info _ _ M).
-      * rewrite (e_ids _ _ E'). apply (sm_ids _ _ M).
-      * intros x Hx. change (fin_count (sweep true true order [] s) x = 0) in Hx.
-        rewrite (e_owned _ _ E' x Hx). apply (sm_owned _ _ M).
+      constructor; cbn [s_info s_owned s_must s_torn]; rewrite Hs'; cbn [info owned torn set_torn set_reg].
+      * intros x Hx. rewrite (e_info _ _ E' x); [apply (sm_info _ _ M); exact Hx | rewrite (sm_info _ _ M x Hx); exact Hx].
+      * intros x Hx Hf. change (fin_count (sweepT order [] s) x = 0) in Hf.
+        rewrite (e_owned _ _ E' x Hf). apply (sm_owned _ _ M x Hx).
         pose proof (e_fin _ _ E' x). lia.
       * intros x Hx. rewrite <- Hs'. apply in_app_iff in Hx. destruct Hx as [Hx|Hx].
-        -- apply filter_In in Hx. destruct Hx as [_ Hx]. rewrite (sm_info _ _ M) in Hx.
-           destruct (info s x) as [[[] bb]|] eqn:Hi; try discriminate.
-           exact (teardown_complete h order x bb Hca Ht Hi).
-        -- assert (Hd : done (sweep true true order [] s) x) by (apply (e_done _ _ E'); apply (sm_must _ _ M); exact Hx).
+        -- apply filter_In in Hx. destruct Hx as [_ Hx].
+           destruct (s_info p x) as [[[] bb]|] eqn:Hi; try discriminate.
+           assert (Hix : info s x = Some (KManaged, bb)) by (rewrite (sm_info _ _ M x); [exact Hi | congruence]).
+           exact (teardown_complete h order x bb Hca Ht Hix).
+        -- assert (Hd : done (sweepT order [] s) x) by (apply (e_done _ _ E'); apply (sm_must _ _ M); exact Hx).
            rewrite Hs'. exact Hd.
       * reflexivity.
+    + (* ESpawn: the specification ignores it *)
+      cbn [step1] in Hs', Hbad1. destruct (live s o); [|discriminate].
+      rewrite Hs'. constructor; apply M.
+    + (* EObs *)
+      rewrite Hs'. constructor; apply M.
 Qed.
 
 Theorem refines_spec h x :
-  bad (runF h) = false -> no_alloc_or_del_in_stop_window true true h = true ->
+  bad (runF h) = false -> s_bad (sp_run h) = false -> no_alloc_or_del_in_stop_window true true true h = true ->
   In x (s_must (sp_run h)) -> fin_count (runF h) x = 1 /\ free_count (runF h) x = 1.
-Proof. intros Hb Hc Hx. destruct (refines_spec_sim h Hb Hc) as [M _]. exact (sm_must _ _ M x Hx). Qed.
+Proof. intros Hb Hs Hc Hx. destruct (refines_spec_sim h Hb Hs Hc) as [M _]. exact (sm_must _ _ M x Hx). Qed.
 
-Lemma refines_spec_sw r w : r = true -> w = true -> forall h x,
-  bad (run r w h) = false -> no_alloc_or_del_in_stop_window r w h = true ->
-  In x (s_must (sp_run h)) -> fin_count (run r w h) x = 1 /\ free_count (run r w h) x = 1.
-Proof. intros -> ->. exact refines_spec. Qed.
+Lemma refines_spec_sw r w d : r = true -> w = true -> d = true -> forall h x,
+  bad (run r w d h) = false -> s_bad (sp_run h) = false -> no_alloc_or_del_in_stop_window r w d h = true ->
+  In x (s_must (sp_run h)) -> fin_count (run r w d h) x = 1 /\ free_count (run r w d h) x = 1.
+Proof. intros -> -> ->. exact refines_spec. Qed.
 
 Example sample_spec_must : In 5 (s_must (sp_run sample_history)) /\ s_bad (sp_run sample_history) = false.
 Proof. vm_compute. split; [left; reflexivity | reflexivity]. Qed.
@@ -2067,7 +2205,7 @@ Proof.
   induction h as [|e h IH] using rev_ind; [intros H; exfalso; apply H; reflexivity|].
   rewrite sp_run_snoc. set (p := sp_run h) in *. unfold sp_step.
   destruct (s_torn p); [exact IH|].
-  destruct e as [k isbox o order marks | b [o|] | k o | order marks | | | order]; cbn [s_info s_ids]; try exact IH.
+  destruct e as [k isbox o order marks | b [o|] | k o | order marks | | | order | o cs | q]; cbn [s_info s_ids]; try exact IH.
   - destruct (s_info p o) eqn:Hi; [exact IH|]. cbn [s_info s_ids].
     destruct (Nat.eqb_spec x o) as [->|Hne]; [intros _; left; reflexivity | intros H; right; apply IH; exact H].
   - match goal with |- context [if ?c then _ else _] => destruct c end; exact IH.
